@@ -1,12 +1,16 @@
 (* MergeProofs.v — C08/C09: proofs about the model of the merge handler in
    Merge.v.  Structure:
      1  Go maps and slices
-     2  one lemma per generated guard (everything below uses only these)
-     3  the global invariant [state_ok] (the session does not panic)
-     4  the REQ state of one subscription id seen as a small machine
-        ([wphase], [wstep]) and the simulation of [merge_step] by it
-     5  C08: the theorems about one REQ window
-     6  C09: OK and COUNT aggregation *)
+     2  one lemma per generated guard (everything below uses only these),
+        2a the ties between the generated guards and the model's
+     3  the REQ state of one subscription id seen as a small machine
+     4  the reply queues of the OK and COUNT state ([w_req], [w_put]) and the
+        characterisation of handleRecvEventMsg/handleSendOKMsg (and COUNT) by them
+     5  the global invariant [state_ok] (the session does not panic)
+     6-8  C08: the simulation of [merge_step] by the phase machine and the
+        theorems about one REQ window
+     9  general lemmas about histories
+   C09 is in MergeAggProofs.v. *)
 From Moc Require Import Base Match MatchProofs Merge.
 From Moc.Gen Require Import GenMerge.
 Open Scope Z_scope.
@@ -123,20 +127,18 @@ Lemma g_ok_not_ready_spec b : h_ok_not_ready b = negb b.
 Proof. reflexivity. Qed.
 Lemma g_count_not_ready_spec b : h_count_not_ready b = negb b.
 Proof. reflexivity. Qed.
-Lemma g_ok_has_slot_spec {A} (l : list A) : h_ok_has_slot (zlen l) = negb (match l with [] => true | _ => false end).
-Proof.
-  unfold h_ok_has_slot. destruct l as [|a l]; [reflexivity|].
-  assert (H : 0 < zlen (a :: l)) by (unfold zlen; simpl length; lia).
-  simpl negb. apply Z.gtb_lt. lia.
-Qed.
 Lemma len_eq0_spec {A} (l : list A) : (zlen l =? 0) = match l with [] => true | _ => false end.
 Proof.
   destruct l as [|a l]; [reflexivity|].
   assert (H : 0 < zlen (a :: l)) by (unfold zlen; simpl length; lia).
   apply Z.eqb_neq. lia.
 Qed.
-Lemma g_ok_setmsg_absent_spec {A} (l : list A) : h_ok_setmsg_absent (zlen l) = match l with [] => true | _ => false end.
+Lemma g_ok_no_slot_spec {A} (l : list A) : h_ok_no_slot (zlen l) = is_nil l.
 Proof. apply len_eq0_spec. Qed.
+Lemma g_ok_setmsg_drop_spec {A} (l : list A) q p : h_ok_setmsg_drop (zlen l) q p = is_nil l || (q >=? p).
+Proof. unfold h_ok_setmsg_drop. now rewrite len_eq0_spec. Qed.
+Lemma g_ok_clear_done_spec p : h_ok_clear_done p = (p <=? 0).
+Proof. reflexivity. Qed.
 Lemma g_ok_ready_absent_spec {A} (l : list A) : h_ok_ready_absent (zlen l) = match l with [] => true | _ => false end.
 Proof. apply len_eq0_spec. Qed.
 Lemma g_ok_msg_absent_spec {A} (l : list A) : h_ok_msg_absent (zlen l) = match l with [] => true | _ => false end.
@@ -176,16 +178,20 @@ Lemma g_ev_done_spec b : h_ev_done b = b.
 Proof. reflexivity. Qed.
 Lemma g_ev_nomatch_spec b : h_ev_nomatch b = negb b.
 Proof. reflexivity. Qed.
-Lemma g_cnt_set_absent_spec {A} (l : list A) : h_cnt_set_absent (zlen l) = match l with [] => true | _ => false end.
+Lemma g_cnt_no_slot_spec {A} (l : list A) : h_cnt_no_slot (zlen l) = is_nil l.
 Proof. apply len_eq0_spec. Qed.
+Lemma g_cnt_set_drop_spec {A} (l : list A) q p : h_cnt_set_drop (zlen l) q p = is_nil l || (q >=? p).
+Proof. unfold h_cnt_set_drop. now rewrite len_eq0_spec. Qed.
+Lemma g_cnt_clear_done_spec p : h_cnt_clear_done p = (p <=? 0).
+Proof. reflexivity. Qed.
 Lemma g_cnt_ready_absent_spec {A} (l : list A) : h_cnt_ready_absent (zlen l) = match l with [] => true | _ => false end.
 Proof. apply len_eq0_spec. Qed.
 
 Global Opaque h_merge_too_few h_eose_already h_eose_incomplete h_event_unsendable h_ok_not_ready
-  h_count_not_ready h_ok_has_slot h_ok_setmsg_absent h_ok_ready_absent h_ok_msg_absent h_ok_is_accepted
+  h_count_not_ready h_ok_no_slot h_ok_setmsg_drop h_ok_clear_done h_ok_ready_absent h_ok_msg_absent h_ok_is_accepted
   h_ok_any_rejected h_req_seteose_absent h_req_alleose_missing h_req_alleose_delete h_ev_all_eose
   h_ev_child_eose h_ev_has_last h_ev_older_first h_ev_ts_decreased h_ev_seen_reject h_ev_done h_ev_nomatch
-  h_cnt_set_absent h_cnt_ready_absent.
+  h_cnt_no_slot h_cnt_set_drop h_cnt_clear_done h_cnt_ready_absent.
 
 
 (* ------------------------------------------------------------------ *)
@@ -205,9 +211,11 @@ Lemma tie_ok_not_ready : forall b, g_ok_not_ready b = h_ok_not_ready b.
 Proof. reflexivity. Qed.
 Lemma tie_count_not_ready : forall b, g_count_not_ready b = h_count_not_ready b.
 Proof. reflexivity. Qed.
-Lemma tie_ok_has_slot : forall n, g_ok_has_slot n = h_ok_has_slot n.
+Lemma tie_ok_no_slot : forall n, g_ok_no_slot n = h_ok_no_slot n.
 Proof. reflexivity. Qed.
-Lemma tie_ok_setmsg_absent : forall n, g_ok_setmsg_absent n = h_ok_setmsg_absent n.
+Lemma tie_ok_setmsg_drop : forall l q p, g_ok_setmsg_drop l q p = h_ok_setmsg_drop l q p.
+Proof. reflexivity. Qed.
+Lemma tie_ok_clear_done : forall p, g_ok_clear_done p = h_ok_clear_done p.
 Proof. reflexivity. Qed.
 Lemma tie_ok_ready_absent : forall n, g_ok_ready_absent n = h_ok_ready_absent n.
 Proof. reflexivity. Qed.
@@ -239,7 +247,11 @@ Lemma tie_ev_done : forall b, g_ev_done b = h_ev_done b.
 Proof. reflexivity. Qed.
 Lemma tie_ev_nomatch : forall b, g_ev_nomatch b = h_ev_nomatch b.
 Proof. reflexivity. Qed.
-Lemma tie_cnt_set_absent : forall n, g_cnt_set_absent n = h_cnt_set_absent n.
+Lemma tie_cnt_no_slot : forall n, g_cnt_no_slot n = h_cnt_no_slot n.
+Proof. reflexivity. Qed.
+Lemma tie_cnt_set_drop : forall l q p, g_cnt_set_drop l q p = h_cnt_set_drop l q p.
+Proof. reflexivity. Qed.
+Lemma tie_cnt_clear_done : forall p, g_cnt_clear_done p = h_cnt_clear_done p.
 Proof. reflexivity. Qed.
 Lemma tie_cnt_ready_absent : forall n, g_cnt_ready_absent n = h_cnt_ready_absent n.
 Proof. reflexivity. Qed.
@@ -690,55 +702,197 @@ Proof.
 Qed.
 
 (* ------------------------------------------------------------------ *)
-(** * 4. Reply slots (OK and COUNT state) *)
+(** * 4. Reply queues (OK and COUNT state) *)
 
-(** every slot vector has one entry per child, and a stored reply carries the
+(** what the code holds for one id: the number of submissions awaiting their
+    merged reply and one FIFO queue per child; [None] = no entry *)
+Definition entry (A : Type) := option (Z * list (list A)).
+
+Definition ent {A} (pend : list (str * Z)) (m : list (str * list (list A))) (k : str) : entry A :=
+  match assoc k m with
+  | None => None
+  | Some qs => Some (zget k pend, qs)
+  end.
+
+(** one queue per child; between two critical sections some queue is empty
+    (a merged reply is produced as soon as none is); a stored reply carries the
     key it is stored under *)
-Definition slots_ok {A} (key : A -> str) (n : nat) (m : list (str * list (option A))) : Prop :=
-  forall k l, assoc k m = Some l -> length l = n /\ forall a, In (Some a) l -> key a = k.
+Definition ent_ok {A} (key : A -> str) (n : nat) (k : str) (e : entry A) : Prop :=
+  match e with
+  | None => True
+  | Some (p, qs) =>
+      length qs = n /\ (n = 0%nat \/ existsb is_nil qs = true) /\
+      forall q a, In q qs -> In a q -> key a = k
+  end.
 
-Lemma slots_ok_set {A} (key : A -> str) n m k l :
-  slots_ok key n m -> length l = n -> (forall a, In (Some a) l -> key a = k) -> slots_ok key n (m_set k l m).
-Proof.
-  intros H Hl Hk k' l' E. destruct (str_dec k k') as [<-|N].
-  - rewrite assoc_m_set_same in E. inversion E; subst. auto.
-  - rewrite assoc_m_set_other in E by assumption. eapply H; eauto.
-Qed.
+Definition tab_ok {A} (key : A -> str) (n : nat) (pend : list (str * Z)) (m : list (str * list (list A))) : Prop :=
+  forall k, ent_ok key n k (ent pend m k) /\ (assoc k m = None -> zget k pend = 0).
 
-Lemma slots_ok_del {A} (key : A -> str) n m k : slots_ok key n m -> slots_ok key n (m_del k m).
-Proof.
-  intros H k' l' E. destruct (str_dec k k') as [<-|N].
-  - rewrite assoc_m_del_same in E. discriminate.
-  - rewrite assoc_m_del_other in E by assumption. eapply H; eauto.
-Qed.
+(** a submission *)
+Definition w_req {A} (n : nat) (e : entry A) : entry A :=
+  match e with
+  | None => Some (1, repeat [] n)
+  | Some (p, qs) => Some (p + 1, qs)
+  end.
 
-Lemma In_repeat_None {A} n (a : A) : ~ In (Some a) (repeat None n).
-Proof. intro H. apply repeat_spec in H. discriminate. Qed.
-
-(** what a reply of child [i] does to the slot vector bound to its key:
-    the new binding and, when the reply completed the vector, the vector *)
-Definition w_put {A} (v : option (list (option A))) (i : nat) (a : A)
-  : option (list (option A)) * option (list (option A)) :=
-  match v with
+(** a reply [a] of child [i]: the new entry and, when every queue is non-empty
+    now, the heads of the queues (which are then merged and dropped) *)
+Definition w_put {A} (e : entry A) (i : nat) (a : A) : entry A * option (list (option A)) :=
+  match e with
   | None => (None, None)
-  | Some [] => (Some [], None)
-  | Some l =>
-      match upd_nth i (Some a) l with
-      | None => (v, None)
-      | Some l' => if existsb isNone l' then (Some l', None) else (None, Some l')
+  | Some (p, qs) =>
+      match nth_error qs i with
+      | None => (e, None)
+      | Some q =>
+          if zlen q >=? p then (e, None) else
+          match upd_nth i (q ++ [a]) qs with
+          | None => (e, None)
+          | Some qs' =>
+              if existsb is_nil qs' then (Some (p, qs'), None)
+              else (if p - 1 <=? 0 then None else Some (p - 1, List.map (@tl A) qs'),
+                    Some (List.map hd_opt qs'))
+          end
       end
   end.
 
-Lemma full_vector {A} (l : list (option A)) :
-  existsb isNone l = false -> exists xs, l = List.map Some xs.
+Lemma zget_set_same k v m : zget k (m_set k v m) = v.
+Proof. unfold zget. now rewrite assoc_m_set_same. Qed.
+
+Lemma zget_set_other k k' v m : k <> k' -> zget k' (m_set k v m) = zget k' m.
+Proof. intro N. unfold zget. now rewrite assoc_m_set_other. Qed.
+
+Lemma zget_del_same k m : zget k (m_del k m) = 0.
+Proof. unfold zget. now rewrite assoc_m_del_same. Qed.
+
+Lemma zget_del_other k k' m : k <> k' -> zget k' (m_del k m) = zget k' m.
+Proof. intro N. unfold zget. now rewrite assoc_m_del_other. Qed.
+
+Lemma nth_error_upd_same {A} i (v : A) l l' : upd_nth i v l = Some l' -> nth_error l' i = Some v.
 Proof.
-  induction l as [|[x|] l IH]; simpl; intro H; [exists []; reflexivity | | discriminate].
-  destruct (IH H) as [xs ->]. exists (x :: xs). reflexivity.
+  revert i l'. induction l as [|x l IH]; intros [|i] l' H; simpl in H; try discriminate.
+  - now inversion H.
+  - destruct (upd_nth i v l) eqn:E; [|discriminate]. inversion H; subst. simpl. eapply IH; eauto.
+Qed.
+
+Lemma nth_error_upd_other {A} i j (v : A) l l' : upd_nth i v l = Some l' -> i <> j -> nth_error l' j = nth_error l j.
+Proof.
+  revert i j l'. induction l as [|x l IH]; intros [|i] j l' H N; simpl in H; try discriminate.
+  - inversion H; subst. destruct j; [congruence | reflexivity].
+  - destruct (upd_nth i v l) eqn:E; [|discriminate]. inversion H; subst.
+    destruct j; [reflexivity|]. simpl. eapply IH; eauto.
+Qed.
+
+(** before the update some queue was empty, after it none is: the updated
+    queue was the empty one *)
+Lemma upd_fills_the_gap {A} i (v : list A) l l' :
+  existsb is_nil l = true -> upd_nth i v l = Some l' -> existsb is_nil l' = false -> nth_error l i = Some [].
+Proof.
+  revert i l'. induction l as [|x l IH]; intros [|i] l' He Hu Hn; simpl in Hu; try discriminate.
+  - inversion Hu; subst. simpl in *. apply orb_false_iff in Hn as [_ Hn].
+    rewrite Hn, orb_false_r in He. destruct x; [reflexivity | discriminate].
+  - destruct (upd_nth i v l) eqn:E; [|discriminate]. inversion Hu; subst. simpl in *.
+    apply orb_false_iff in Hn as [Hx Hn]. rewrite Hx in He. simpl in He. eapply IH; eauto.
+Qed.
+
+Lemma tails_map_tl {A} (l : list (list A)) : existsb is_nil l = false -> tails l = Some (List.map (@tl A) l).
+Proof.
+  induction l as [|q l IH]; simpl; [reflexivity|]. intro H. apply orb_false_iff in H as [Hq Hl].
+  destruct q as [|x q]; [discriminate|]. now rewrite (IH Hl).
+Qed.
+
+Lemma heads_full {A} (l : list (list A)) :
+  existsb is_nil l = false -> exists xs, List.map hd_opt l = List.map Some xs /\ length xs = length l.
+Proof.
+  induction l as [|q l IH]; simpl; intro H; [exists []; split; reflexivity|].
+  apply orb_false_iff in H as [Hq Hl]. destruct q as [|x q]; [discriminate|].
+  destruct (IH Hl) as [xs [E L]]. exists (x :: xs). simpl. now rewrite E, L.
+Qed.
+
+Lemma heads_In {A} (l : list (list A)) a : In (Some a) (List.map hd_opt l) -> exists q, In q l /\ In a q.
+Proof.
+  intro H. apply in_map_iff in H as [q [E Hq]]. destruct q as [|x q]; [discriminate|].
+  inversion E; subst. exists (a :: q). split; [assumption | now left].
+Qed.
+
+Lemma tls_In {A} (l : list (list A)) q' a : In q' (List.map (@tl A) l) -> In a q' -> exists q, In q l /\ In a q.
+Proof.
+  intros H Ha. apply in_map_iff in H as [q [E Hq]]. subst q'. exists q. split; [assumption|].
+  destruct q; [destruct Ha | now right].
+Qed.
+
+Lemma nth_error_existsb_nil {A} (l : list (list A)) i : nth_error l i = Some [] -> existsb is_nil l = true.
+Proof. intro H. apply existsb_exists. exists []. split; [eapply nth_error_In; eauto | reflexivity]. Qed.
+
+Lemma In_repeat_nil {A} n (q : list A) : In q (repeat [] n) -> q = [].
+Proof. intro H. now apply repeat_spec in H. Qed.
+
+Lemma existsb_nil_repeat {A} n : n <> 0%nat -> existsb is_nil (@repeat (list A) [] n) = true.
+Proof. destruct n; [congruence | reflexivity]. Qed.
+
+(** [w_req] keeps an entry well-formed *)
+Lemma w_req_ok {A} (key : A -> str) n k (e : entry A) : ent_ok key n k e -> ent_ok key n k (w_req n e).
+Proof.
+  destruct e as [[p qs]|]; cbn [w_req ent_ok]; [tauto|]. intros _.
+  split; [apply repeat_length|]. split.
+  - destruct n; [now left | right; reflexivity].
+  - intros q a Hq Ha. apply In_repeat_nil in Hq. subst q. destruct Ha.
+Qed.
+
+(** ... and so does [w_put] *)
+Lemma w_put_ok {A} (key : A -> str) n (e : entry A) i a :
+  ent_ok key n (key a) e -> ent_ok key n (key a) (fst (w_put e i a)).
+Proof.
+  destruct e as [[p qs]|]; cbn [w_put]; [|auto]. intros [Hl [He Hk]].
+  destruct (nth_error qs i) as [q|] eqn:En; [|cbn; auto].
+  destruct (zlen q >=? p); [cbn; auto|].
+  destruct (upd_nth i (q ++ [a]) qs) as [qs'|] eqn:Eu; [|cbn; auto].
+  assert (Hl' : length qs' = n) by (rewrite (upd_nth_length _ _ _ _ Eu); exact Hl).
+  assert (Hk' : forall q0 a0, In q0 qs' -> In a0 q0 -> key a0 = key a).
+  { intros q0 a0 H0 Ha0. destruct (upd_nth_In _ _ _ _ _ Eu H0) as [->|Hin].
+    - apply in_app_or in Ha0 as [Ha0|[<-|[]]]; [|reflexivity]. apply (Hk q); [eapply nth_error_In; eauto | assumption].
+    - now apply (Hk q0). }
+  destruct (existsb is_nil qs') eqn:Ex; cbn [fst].
+  - cbn. auto.
+  - destruct (p - 1 <=? 0); [exact I|]. cbn [ent_ok]. split; [now rewrite map_length|]. split.
+    + destruct He as [He|He]; [now left | right].
+      pose proof (upd_fills_the_gap _ _ _ _ He Eu Ex) as Hq. rewrite En in Hq. inversion Hq; subst q.
+      apply (nth_error_existsb_nil _ i). rewrite nth_error_map, (nth_error_upd_same _ _ _ _ Eu). reflexivity.
+    + intros q0 a0 H0 Ha0. destruct (tls_In _ _ _ H0 Ha0) as [q1 [H1 H2]]. now apply (Hk' q1).
+Qed.
+
+(** what a full vector of heads is made of *)
+Lemma w_put_full_In {A} (key : A -> str) n (e : entry A) i a l' b :
+  ent_ok key n (key a) e -> snd (w_put e i a) = Some l' -> In (Some b) l' -> key b = key a.
+Proof.
+  destruct e as [[p qs]|]; cbn [w_put]; [|discriminate]. intros [Hl [He Hk]].
+  destruct (nth_error qs i) as [q|] eqn:En; [|discriminate].
+  destruct (zlen q >=? p); [discriminate|].
+  destruct (upd_nth i (q ++ [a]) qs) as [qs'|] eqn:Eu; [|discriminate].
+  destruct (existsb is_nil qs'); cbn [snd]; [discriminate|]. intros H Hb. inversion H; subst l'.
+  destruct (heads_In _ _ Hb) as [q0 [H0 Hb0]].
+  destruct (upd_nth_In _ _ _ _ _ Eu H0) as [->|Hin].
+  - apply in_app_or in Hb0 as [Hb0|[<-|[]]]; [|reflexivity]. apply (Hk q); [eapply nth_error_In; eauto | assumption].
+  - now apply (Hk q0).
+Qed.
+
+Lemma w_put_full_vector {A} (e : entry A) i a l' :
+  snd (w_put e i a) = Some l' -> exists xs, l' = List.map Some xs /\ xs <> [].
+Proof.
+  destruct e as [[p qs]|]; cbn [w_put]; [|discriminate].
+  destruct (nth_error qs i) as [q|] eqn:En; [|discriminate].
+  destruct (zlen q >=? p); [discriminate|].
+  destruct (upd_nth i (q ++ [a]) qs) as [qs'|] eqn:Eu; [|discriminate].
+  destruct (existsb is_nil qs') eqn:Ex; cbn [snd]; [discriminate|]. intro H. inversion H; subst l'.
+  destruct (heads_full _ Ex) as [xs [E L]]. exists xs. split; [exact E|].
+  intro Z0. subst xs. cbn in L. pose proof (upd_nth_length _ _ _ _ Eu) as L2.
+  apply nth_error_In in En. destruct qs; [destruct En | rewrite <- L in L2; discriminate].
 Qed.
 
 (** ** OK *)
 
-Definition os_ok (n : nat) (o : ostate) : Prop := os_size o = n /\ slots_ok ok_id n (os_s o).
+Definition os_ent (o : ostate) (k : str) : entry okm := ent (os_pending o) (os_s o) k.
+
+Definition os_ok (n : nat) (o : ostate) : Prop := os_size o = n /\ tab_ok ok_id n (os_pending o) (os_s o).
 
 Definition ok_merge (msgs : list (option okm)) : option okm :=
   match ok_partition msgs with
@@ -767,13 +921,6 @@ Proof.
   - eexists; reflexivity.
 Qed.
 
-Lemma os_try_set_ok n o id : os_ok n o -> os_ok n (os_try_set o id).
-Proof.
-  intros [Hn H]. unfold os_try_set. destruct (h_ok_has_slot _); [split; assumption|].
-  split; [exact Hn|]. cbn [os_s]. apply slots_ok_set; [assumption | now rewrite repeat_length |].
-  intros a Ha. exfalso. eapply In_repeat_None; eauto.
-Qed.
-
 Definition out_ok (full : option (list (option okm))) : option smsg :=
   match full with
   | Some l' => option_map SOk (ok_merge l')
@@ -786,66 +933,132 @@ Proof. destruct l; congruence. Qed.
 
 Ltac split5 := split; [|split; [|split; [|split]]].
 
-(** handleSendOKMsg is [w_put] on the slot vector of its event id and touches
+(** TrySetEventID is [w_req] on the entry of its event id and touches nothing else *)
+Lemma os_try_set_spec n o id :
+  os_ok n o ->
+  os_ok n (os_try_set o id) /\
+  os_ent (os_try_set o id) id = w_req n (os_ent o id) /\
+  (forall k, k <> id -> os_ent (os_try_set o id) k = os_ent o k).
+Proof.
+  intros [Hn Hok]. unfold os_try_set, os_ent, ent. cbn [os_pending os_s os_size].
+  assert (E1 : ent (m_set id (zget id (os_pending o) + 1) (os_pending o))
+                 (if h_ok_no_slot (zlen (vlist (assoc id (os_s o))))
+                  then m_set id (repeat [] (os_size o)) (os_s o) else os_s o) id = w_req n (os_ent o id)).
+  { unfold os_ent, ent. rewrite zget_set_same, g_ok_no_slot_spec.
+    destruct (assoc id (os_s o)) as [qs|] eqn:Ea; cbn [vlist].
+    - destruct (Hok id) as [Hk _]. unfold ent in Hk. rewrite Ea in Hk. destruct Hk as [Hl _].
+      destruct qs as [|q qs]; cbn [is_nil].
+      + rewrite assoc_m_set_same. cbn [w_req]. cbn in Hl. rewrite Hn, <- Hl. reflexivity.
+      + rewrite Ea. reflexivity.
+    - cbn [is_nil]. rewrite assoc_m_set_same, Hn. destruct (Hok id) as [_ H0]. rewrite (H0 Ea). reflexivity. }
+  assert (E2 : forall k, k <> id ->
+             ent (m_set id (zget id (os_pending o) + 1) (os_pending o))
+                 (if h_ok_no_slot (zlen (vlist (assoc id (os_s o))))
+                  then m_set id (repeat [] (os_size o)) (os_s o) else os_s o) k = ent (os_pending o) (os_s o) k).
+  { intros k N. unfold ent. rewrite zget_set_other by congruence.
+    destruct (h_ok_no_slot _); [rewrite assoc_m_set_other by congruence|]; reflexivity. }
+  split; [|split; [exact E1 | exact E2]].
+  split; [exact Hn|]. cbn [os_pending os_s]. intro k. destruct (str_dec id k) as [<-|N].
+  - split.
+    + rewrite E1. apply w_req_ok. apply Hok.
+    + intro H0. exfalso. unfold ent in E1. rewrite H0 in E1. unfold os_ent in E1.
+      destruct (ent (os_pending o) (os_s o) id) as [[p qs]|]; discriminate.
+  - split.
+    + rewrite E2 by congruence. apply Hok.
+    + rewrite zget_set_other by assumption. intro H0. apply Hok.
+      destruct (h_ok_no_slot _); [rewrite assoc_m_set_other in H0 by assumption|]; exact H0.
+Qed.
+
+(** handleSendOKMsg is [w_put] on the entry of its event id and touches
     nothing else; it cannot panic *)
 Lemma send_ok_spec n s i m :
   os_ok n (st_os s) -> (i < n)%nat ->
-  let v := assoc (ok_id m) (os_s (st_os s)) in
+  let v := os_ent (st_os s) (ok_id m) in
   exists o',
     send_ok s i m = (with_os s o', out_ok (snd (w_put v i m))) /\
     os_ok n o' /\
-    (forall k, k <> ok_id m -> assoc k (os_s o') = assoc k (os_s (st_os s))) /\
-    assoc (ok_id m) (os_s o') = fst (w_put v i m) /\
+    (forall k, k <> ok_id m -> os_ent o' k = os_ent (st_os s) k) /\
+    os_ent o' (ok_id m) = fst (w_put v i m) /\
     (forall l', snd (w_put v i m) = Some l' -> exists r, ok_merge l' = Some r).
 Proof.
   intros [Hn Hok] Hi v. set (o := st_os s) in *. set (id := ok_id m) in *.
-  unfold send_ok, os_set_msg. fold o. fold id. fold v.
-  destruct v as [l|] eqn:Ev.
-  2:{ cbn [vlist]. rewrite g_ok_setmsg_absent_spec. unfold os_ready. fold v. rewrite Ev. cbn [vlist].
-      rewrite g_ok_ready_absent_spec, g_ok_not_ready_spec. cbn [negb].
-      exists o. split5; auto; try (split; assumption). intros l' H; discriminate. }
-  cbn [vlist]. rewrite g_ok_setmsg_absent_spec.
-  destruct l as [|x0 l0] eqn:El.
-  { unfold os_ready. fold v. rewrite Ev. cbn [vlist]. rewrite g_ok_ready_absent_spec, g_ok_not_ready_spec.
-    cbn [negb]. exists o. split5; auto; try (split; assumption). intros l' H; discriminate. }
-  rewrite <- El in *. destruct (Hok id l Ev) as [Hlen Hkey].
-  destruct (upd_nth_some i (Some m) l) as [l' Eu]; [lia|].
-  assert (W : w_put (Some l) i m = if existsb isNone l' then (Some l', None) else (None, Some l')).
-  { unfold w_put. rewrite Eu. rewrite El in *. reflexivity. }
-  rewrite W, Eu. clear W.
-  set (o1 := mkOS (os_size o) (m_set id l' (os_s o))).
-  assert (Hl' : length l' = n) by (rewrite (upd_nth_length _ _ _ _ Eu); exact Hlen).
-  assert (Hk' : forall a, In (Some a) l' -> ok_id a = id).
-  { intros a Ha. destruct (upd_nth_In _ _ _ _ _ Eu Ha) as [E|Hin]; [now inversion E | now apply Hkey]. }
-  assert (Hne' : l' <> []).
-  { intro E. rewrite E in Hl'. simpl in Hl'. lia. }
-  assert (Hok1 : os_ok n o1).
-  { split; [exact Hn|]. cbn [os_s o1]. now apply slots_ok_set. }
-  unfold os_ready. cbn [os_s o1]. rewrite assoc_m_set_same. cbn [vlist].
-  rewrite g_ok_ready_absent_spec, g_ok_not_ready_spec, (match_nonempty l') by exact Hne'.
-  destruct (existsb isNone l') eqn:Ex; cbn [negb snd fst out_ok].
-  - exists o1. split5; try exact Hok1.
-    + reflexivity.
-    + intros k N. cbn [os_s o1]. apply assoc_m_set_other. congruence.
-    + cbn [os_s o1]. apply assoc_m_set_same.
-    + intros l'' H; discriminate.
-  - destruct (full_vector l' Ex) as [xs Exs].
-    destruct (ok_merge_full xs) as [r Er]; [intro E; subst xs; rewrite Exs in Hne'; now apply Hne'|].
+  assert (Hfull : forall l', snd (w_put v i m) = Some l' -> exists r, ok_merge l' = Some r).
+  { intros l' H. destruct (w_put_full_vector _ _ _ _ H) as [xs [-> Hne]]. now apply ok_merge_full. }
+  assert (Hsame : exists o', send_ok s i m = (with_os s o', out_ok (snd (w_put v i m))) /\
+                     os_size o' = n /\
+                     (forall k, k <> id -> os_ent o' k = os_ent o k) /\
+                     (forall k, k <> id -> assoc k (os_s o') = None -> zget k (os_pending o') = 0) /\
+                     os_ent o' id = fst (w_put v i m) /\
+                     (assoc id (os_s o') = None -> zget id (os_pending o') = 0)).
+  { unfold send_ok, os_set_msg. fold o. fold id.
+    assert (Hframe0 : forall k, k <> id -> assoc k (os_s o) = None -> zget k (os_pending o) = 0)
+      by (intros k _; apply Hok).
+    unfold v, os_ent, ent. destruct (assoc id (os_s o)) as [qs|] eqn:Ea; cbn [vlist].
+    2:{ cbn [idx_guarded]. rewrite g_ok_setmsg_drop_spec. cbn [is_nil orb].
+        unfold os_ready. fold id. rewrite Ea. cbn [vlist]. rewrite g_ok_ready_absent_spec, g_ok_not_ready_spec.
+        cbn [negb w_put snd fst out_ok]. exists o. split5; auto.
+        split; [unfold os_ent, ent; now rewrite Ea | intros _; apply Hok; exact Ea]. }
+    destruct (Hok id) as [Hk _]. unfold ent in Hk. rewrite Ea in Hk. destruct Hk as [Hl [He Hkey]].
+    destruct He as [He|He]; [lia|].
+    destruct (nth_error qs i) as [q|] eqn:En.
+    2:{ exfalso. apply nth_error_None in En. lia. }
+    assert (Hne : qs <> []) by (intro E; subst qs; destruct i; discriminate).
+    replace (idx_guarded qs i) with (Some q) by (destruct qs; [congruence | now rewrite <- En]).
+    cbn [w_put]. rewrite En.
+    rewrite g_ok_setmsg_drop_spec. replace (is_nil qs) with false by (destruct qs; [congruence | reflexivity]).
+    cbn [orb]. destruct (zlen q >=? zget id (os_pending o)) eqn:Ed.
+    { (* dropped *)
+      unfold os_ready. fold id. rewrite Ea. cbn [vlist].
+      rewrite g_ok_ready_absent_spec, g_ok_not_ready_spec, (match_nonempty qs) by exact Hne.
+      rewrite He. cbn [negb snd fst out_ok]. exists o. split5; auto.
+      split; [unfold os_ent, ent; now rewrite Ea | intro H0; rewrite Ea in H0; discriminate]. }
+    destruct (upd_nth_some i (q ++ [m]) qs) as [qs' Eu]; [lia|]. rewrite Eu.
+    set (o1 := mkOS (os_size o) (os_pending o) (m_set id qs' (os_s o))).
+    assert (Hl' : length qs' = n) by (rewrite (upd_nth_length _ _ _ _ Eu); exact Hl).
+    assert (Hne' : qs' <> []) by (intro E; rewrite E in Hl'; simpl in Hl'; lia).
+    unfold os_ready. cbn [os_s o1]. rewrite assoc_m_set_same. cbn [vlist].
+    rewrite g_ok_ready_absent_spec, g_ok_not_ready_spec, (match_nonempty qs') by exact Hne'.
+    destruct (existsb is_nil qs') eqn:Ex; cbn [negb snd fst out_ok].
+    { exists o1. split5; auto.
+      - intros k N. unfold os_ent, ent. cbn [os_s os_pending o1]. now rewrite assoc_m_set_other by congruence.
+      - intros k N. cbn [os_s os_pending o1]. rewrite assoc_m_set_other by congruence. now apply Hframe0.
+      - split; [unfold os_ent, ent; cbn [os_s os_pending o1]; now rewrite assoc_m_set_same|].
+        cbn [os_s o1]. rewrite assoc_m_set_same. discriminate. }
+    (* every queue is non-empty: merge the heads, drop them *)
+    destruct (heads_full _ Ex) as [xs [Exs Lxs]].
+    destruct (ok_merge_full xs) as [r Er]; [intro E; subst xs; cbn in Lxs; rewrite <- Lxs in Hl'; lia|].
     unfold os_msg. cbn [os_s o1]. rewrite assoc_m_set_same. cbn [vlist].
-    rewrite g_ok_msg_absent_spec, (match_nonempty l') by exact Hne'.
-    fold (ok_merge l'). rewrite Exs, Er. cbn [option_map].
-    exists (os_clear o1 id). split5.
-    + reflexivity.
-    + split; [exact Hn|]. cbn [os_clear os_s]. apply slots_ok_del. apply Hok1.
-    + intros k N. cbn [os_clear os_s o1]. rewrite assoc_m_del_other by congruence.
-      apply assoc_m_set_other. congruence.
-    + cbn [os_clear os_s]. apply assoc_m_del_same.
-    + intros l'' H. inversion H; subst. now exists r.
+    rewrite g_ok_msg_absent_spec, (match_nonempty qs') by exact Hne'.
+    fold (ok_merge (List.map hd_opt qs')). rewrite Exs, Er. cbn [option_map].
+    unfold os_clear. cbn [os_s os_pending os_size o1]. rewrite assoc_m_set_same. cbn [vlist].
+    rewrite (tails_map_tl _ Ex), g_ok_clear_done_spec.
+    destruct (zget id (os_pending o) - 1 <=? 0) eqn:Ep.
+    - eexists. split5; [reflexivity | exact Hn | | | ].
+      + intros k N. unfold os_ent, ent. cbn [os_s os_pending].
+        rewrite zget_del_other by congruence. rewrite !assoc_m_del_other, !assoc_m_set_other by congruence. reflexivity.
+      + intros k N. cbn [os_s os_pending]. rewrite zget_del_other by congruence.
+        rewrite !assoc_m_del_other, !assoc_m_set_other by congruence. now apply Hframe0.
+      + split; [unfold os_ent, ent; cbn [os_s]; now rewrite assoc_m_del_same|].
+        intros _. cbn [os_pending]. apply zget_del_same.
+    - eexists. split5; [reflexivity | exact Hn | | | ].
+      + intros k N. unfold os_ent, ent. cbn [os_s os_pending].
+        rewrite zget_set_other by congruence. rewrite !assoc_m_set_other by congruence. reflexivity.
+      + intros k N. cbn [os_s os_pending]. rewrite zget_set_other by congruence.
+        rewrite !assoc_m_set_other by congruence. now apply Hframe0.
+      + split; [unfold os_ent, ent; cbn [os_s os_pending]; now rewrite assoc_m_set_same, zget_set_same|].
+        cbn [os_s]. rewrite assoc_m_set_same. discriminate. }
+  destruct Hsame as [o' [E [Hsz [Hoth [Hoth0 [Hid Hid0]]]]]].
+  exists o'. split5; auto.
+  split; [exact Hsz|]. intro k. destruct (str_dec id k) as [<-|N].
+  - split; [|exact Hid0]. fold (os_ent o' id). rewrite Hid. apply w_put_ok. apply (Hok id).
+  - split; [|apply Hoth0; congruence]. fold (os_ent o' k). rewrite Hoth by congruence. apply (Hok k).
 Qed.
 
 (** ** COUNT *)
 
-Definition cs_ok (n : nat) (c : cstate) : Prop := cs_size c = n /\ slots_ok c_sub n (cs_counts c).
+Definition cs_ent (c : cstate) (k : str) : entry cntm := ent (cs_pending c) (cs_counts c) k.
+
+Definition cs_ok (n : nat) (c : cstate) : Prop := cs_size c = n /\ tab_ok c_sub n (cs_pending c) (cs_counts c).
 
 Definition cnt_merge (l : list (option cntm)) : option cntm :=
   match all_some l with
@@ -862,74 +1075,131 @@ Proof.
   intro H. unfold cnt_merge. rewrite all_some_map. destruct xs; [congruence | eexists; reflexivity].
 Qed.
 
-Lemma cs_set_sub_ok n c sub : cs_ok n c -> cs_ok n (cs_set_sub c sub).
-Proof.
-  intros [Hn H]. split; [exact Hn|]. cbn [cs_set_sub cs_counts].
-  apply slots_ok_set; [assumption | now rewrite repeat_length |].
-  intros a Ha. exfalso. eapply In_repeat_None; eauto.
-Qed.
-
 Definition out_cnt (full : option (list (option cntm))) : option smsg :=
   match full with
   | Some l' => option_map SCount (cnt_merge l')
   | None => None
   end.
 
-(** handleSendCountMsg is [w_put] on the slot vector of its subscription id *)
+(** SetSubID is [w_req] on the entry of its subscription id and touches nothing else *)
+Lemma cs_set_sub_spec n o id :
+  cs_ok n o ->
+  cs_ok n (cs_set_sub o id) /\
+  cs_ent (cs_set_sub o id) id = w_req n (cs_ent o id) /\
+  (forall k, k <> id -> cs_ent (cs_set_sub o id) k = cs_ent o k).
+Proof.
+  intros [Hn Hok]. unfold cs_set_sub, cs_ent, ent. cbn [cs_pending cs_counts cs_size].
+  assert (E1 : ent (m_set id (zget id (cs_pending o) + 1) (cs_pending o))
+                 (if h_cnt_no_slot (zlen (vlist (assoc id (cs_counts o))))
+                  then m_set id (repeat [] (cs_size o)) (cs_counts o) else cs_counts o) id = w_req n (cs_ent o id)).
+  { unfold cs_ent, ent. rewrite zget_set_same, g_cnt_no_slot_spec.
+    destruct (assoc id (cs_counts o)) as [qs|] eqn:Ea; cbn [vlist].
+    - destruct (Hok id) as [Hk _]. unfold ent in Hk. rewrite Ea in Hk. destruct Hk as [Hl _].
+      destruct qs as [|q qs]; cbn [is_nil].
+      + rewrite assoc_m_set_same. cbn [w_req]. cbn in Hl. rewrite Hn, <- Hl. reflexivity.
+      + rewrite Ea. reflexivity.
+    - cbn [is_nil]. rewrite assoc_m_set_same, Hn. destruct (Hok id) as [_ H0]. rewrite (H0 Ea). reflexivity. }
+  assert (E2 : forall k, k <> id ->
+             ent (m_set id (zget id (cs_pending o) + 1) (cs_pending o))
+                 (if h_cnt_no_slot (zlen (vlist (assoc id (cs_counts o))))
+                  then m_set id (repeat [] (cs_size o)) (cs_counts o) else cs_counts o) k = ent (cs_pending o) (cs_counts o) k).
+  { intros k N. unfold ent. rewrite zget_set_other by congruence.
+    destruct (h_cnt_no_slot _); [rewrite assoc_m_set_other by congruence|]; reflexivity. }
+  split; [|split; [exact E1 | exact E2]].
+  split; [exact Hn|]. cbn [cs_pending cs_counts]. intro k. destruct (str_dec id k) as [<-|N].
+  - split.
+    + rewrite E1. apply w_req_ok. apply Hok.
+    + intro H0. exfalso. unfold ent in E1. rewrite H0 in E1. unfold cs_ent in E1.
+      destruct (ent (cs_pending o) (cs_counts o) id) as [[p qs]|]; discriminate.
+  - split.
+    + rewrite E2 by congruence. apply Hok.
+    + rewrite zget_set_other by assumption. intro H0. apply Hok.
+      destruct (h_cnt_no_slot _); [rewrite assoc_m_set_other in H0 by assumption|]; exact H0.
+Qed.
+
+(** handleSendCountMsg is [w_put] on the entry of its subscription id and touches
+    nothing else; it cannot panic *)
 Lemma send_count_spec n s i m :
   cs_ok n (st_cs s) -> (i < n)%nat ->
-  let v := assoc (c_sub m) (cs_counts (st_cs s)) in
-  exists c',
-    send_count s i m = (with_cs s c', out_cnt (snd (w_put v i m))) /\
-    cs_ok n c' /\
-    (forall k, k <> c_sub m -> assoc k (cs_counts c') = assoc k (cs_counts (st_cs s))) /\
-    assoc (c_sub m) (cs_counts c') = fst (w_put v i m) /\
+  let v := cs_ent (st_cs s) (c_sub m) in
+  exists o',
+    send_count s i m = (with_cs s o', out_cnt (snd (w_put v i m))) /\
+    cs_ok n o' /\
+    (forall k, k <> c_sub m -> cs_ent o' k = cs_ent (st_cs s) k) /\
+    cs_ent o' (c_sub m) = fst (w_put v i m) /\
     (forall l', snd (w_put v i m) = Some l' -> exists r, cnt_merge l' = Some r).
 Proof.
   intros [Hn Hok] Hi v. set (o := st_cs s) in *. set (id := c_sub m) in *.
-  unfold send_count, cs_set_msg. fold o. fold id. fold v.
-  destruct v as [l|] eqn:Ev.
-  2:{ cbn [vlist]. rewrite g_cnt_set_absent_spec. unfold cs_ready. fold v. rewrite Ev. cbn [vlist].
-      rewrite g_cnt_ready_absent_spec, g_count_not_ready_spec. cbn [negb].
-      exists o. split5; auto; try (split; assumption). intros l' H; discriminate. }
-  cbn [vlist]. rewrite g_cnt_set_absent_spec.
-  destruct l as [|x0 l0] eqn:El.
-  { unfold cs_ready. fold v. rewrite Ev. cbn [vlist]. rewrite g_cnt_ready_absent_spec, g_count_not_ready_spec.
-    cbn [negb]. exists o. split5; auto; try (split; assumption). intros l' H; discriminate. }
-  rewrite <- El in *. destruct (Hok id l Ev) as [Hlen Hkey].
-  destruct (upd_nth_some i (Some m) l) as [l' Eu]; [lia|].
-  assert (W : w_put (Some l) i m = if existsb isNone l' then (Some l', None) else (None, Some l')).
-  { unfold w_put. rewrite Eu. rewrite El in *. reflexivity. }
-  rewrite W, Eu. clear W.
-  set (o1 := mkCS (cs_size o) (m_set id l' (cs_counts o))).
-  assert (Hl' : length l' = n) by (rewrite (upd_nth_length _ _ _ _ Eu); exact Hlen).
-  assert (Hk' : forall a, In (Some a) l' -> c_sub a = id).
-  { intros a Ha. destruct (upd_nth_In _ _ _ _ _ Eu Ha) as [E|Hin]; [now inversion E | now apply Hkey]. }
-  assert (Hne' : l' <> []).
-  { intro E. rewrite E in Hl'. simpl in Hl'. lia. }
-  assert (Hok1 : cs_ok n o1).
-  { split; [exact Hn|]. cbn [cs_counts o1]. now apply slots_ok_set. }
-  unfold cs_ready. cbn [cs_counts o1]. rewrite assoc_m_set_same. cbn [vlist].
-  rewrite g_cnt_ready_absent_spec, g_count_not_ready_spec, (match_nonempty l') by exact Hne'.
-  destruct (existsb isNone l') eqn:Ex; cbn [negb snd fst out_cnt].
-  - exists o1. split5; try exact Hok1.
-    + reflexivity.
-    + intros k N. cbn [cs_counts o1]. apply assoc_m_set_other. congruence.
-    + cbn [cs_counts o1]. apply assoc_m_set_same.
-    + intros l'' H; discriminate.
-  - destruct (full_vector l' Ex) as [xs Exs].
-    destruct (cnt_merge_full xs) as [r Er]; [intro E; subst xs; rewrite Exs in Hne'; now apply Hne'|].
+  assert (Hfull : forall l', snd (w_put v i m) = Some l' -> exists r, cnt_merge l' = Some r).
+  { intros l' H. destruct (w_put_full_vector _ _ _ _ H) as [xs [-> Hne]]. now apply cnt_merge_full. }
+  assert (Hsame : exists o', send_count s i m = (with_cs s o', out_cnt (snd (w_put v i m))) /\
+                     cs_size o' = n /\
+                     (forall k, k <> id -> cs_ent o' k = cs_ent o k) /\
+                     (forall k, k <> id -> assoc k (cs_counts o') = None -> zget k (cs_pending o') = 0) /\
+                     cs_ent o' id = fst (w_put v i m) /\
+                     (assoc id (cs_counts o') = None -> zget id (cs_pending o') = 0)).
+  { unfold send_count, cs_set_msg. fold o. fold id.
+    assert (Hframe0 : forall k, k <> id -> assoc k (cs_counts o) = None -> zget k (cs_pending o) = 0)
+      by (intros k _; apply Hok).
+    unfold v, cs_ent, ent. destruct (assoc id (cs_counts o)) as [qs|] eqn:Ea; cbn [vlist].
+    2:{ cbn [idx_guarded]. rewrite g_cnt_set_drop_spec. cbn [is_nil orb].
+        unfold cs_ready. fold id. rewrite Ea. cbn [vlist]. rewrite g_cnt_ready_absent_spec, g_count_not_ready_spec.
+        cbn [negb w_put snd fst out_cnt]. exists o. split5; auto.
+        split; [unfold cs_ent, ent; now rewrite Ea | intros _; apply Hok; exact Ea]. }
+    destruct (Hok id) as [Hk _]. unfold ent in Hk. rewrite Ea in Hk. destruct Hk as [Hl [He Hkey]].
+    destruct He as [He|He]; [lia|].
+    destruct (nth_error qs i) as [q|] eqn:En.
+    2:{ exfalso. apply nth_error_None in En. lia. }
+    assert (Hne : qs <> []) by (intro E; subst qs; destruct i; discriminate).
+    replace (idx_guarded qs i) with (Some q) by (destruct qs; [congruence | now rewrite <- En]).
+    cbn [w_put]. rewrite En.
+    rewrite g_cnt_set_drop_spec. replace (is_nil qs) with false by (destruct qs; [congruence | reflexivity]).
+    cbn [orb]. destruct (zlen q >=? zget id (cs_pending o)) eqn:Ed.
+    { (* dropped *)
+      unfold cs_ready. fold id. rewrite Ea. cbn [vlist].
+      rewrite g_cnt_ready_absent_spec, g_count_not_ready_spec, (match_nonempty qs) by exact Hne.
+      rewrite He. cbn [negb snd fst out_cnt]. exists o. split5; auto.
+      split; [unfold cs_ent, ent; now rewrite Ea | intro H0; rewrite Ea in H0; discriminate]. }
+    destruct (upd_nth_some i (q ++ [m]) qs) as [qs' Eu]; [lia|]. rewrite Eu.
+    set (o1 := mkCS (cs_size o) (cs_pending o) (m_set id qs' (cs_counts o))).
+    assert (Hl' : length qs' = n) by (rewrite (upd_nth_length _ _ _ _ Eu); exact Hl).
+    assert (Hne' : qs' <> []) by (intro E; rewrite E in Hl'; simpl in Hl'; lia).
+    unfold cs_ready. cbn [cs_counts o1]. rewrite assoc_m_set_same. cbn [vlist].
+    rewrite g_cnt_ready_absent_spec, g_count_not_ready_spec, (match_nonempty qs') by exact Hne'.
+    destruct (existsb is_nil qs') eqn:Ex; cbn [negb snd fst out_cnt].
+    { exists o1. split5; auto.
+      - intros k N. unfold cs_ent, ent. cbn [cs_counts cs_pending o1]. now rewrite assoc_m_set_other by congruence.
+      - intros k N. cbn [cs_counts cs_pending o1]. rewrite assoc_m_set_other by congruence. now apply Hframe0.
+      - split; [unfold cs_ent, ent; cbn [cs_counts cs_pending o1]; now rewrite assoc_m_set_same|].
+        cbn [cs_counts o1]. rewrite assoc_m_set_same. discriminate. }
+    (* every queue is non-empty: merge the heads, drop them *)
+    destruct (heads_full _ Ex) as [xs [Exs Lxs]].
+    destruct (cnt_merge_full xs) as [r Er]; [intro E; subst xs; cbn in Lxs; rewrite <- Lxs in Hl'; lia|].
     unfold cs_msg. cbn [cs_counts o1]. rewrite assoc_m_set_same. cbn [vlist].
-    fold (cnt_merge l'). rewrite Exs, Er. cbn [option_map].
-    exists (cs_clear o1 id). split5.
-    + reflexivity.
-    + split; [exact Hn|]. cbn [cs_clear cs_counts]. apply slots_ok_del. apply Hok1.
-    + intros k N. cbn [cs_clear cs_counts o1]. rewrite assoc_m_del_other by congruence.
-      apply assoc_m_set_other. congruence.
-    + cbn [cs_clear cs_counts]. apply assoc_m_del_same.
-    + intros l'' H. inversion H; subst. now exists r.
+    fold (cnt_merge (List.map hd_opt qs')). rewrite Exs, Er. cbn [option_map].
+    unfold cs_clear. cbn [cs_counts cs_pending cs_size o1]. rewrite assoc_m_set_same. cbn [vlist].
+    rewrite (tails_map_tl _ Ex), g_cnt_clear_done_spec.
+    destruct (zget id (cs_pending o) - 1 <=? 0) eqn:Ep.
+    - eexists. split5; [reflexivity | exact Hn | | | ].
+      + intros k N. unfold cs_ent, ent. cbn [cs_counts cs_pending].
+        rewrite zget_del_other by congruence. rewrite !assoc_m_del_other, !assoc_m_set_other by congruence. reflexivity.
+      + intros k N. cbn [cs_counts cs_pending]. rewrite zget_del_other by congruence.
+        rewrite !assoc_m_del_other, !assoc_m_set_other by congruence. now apply Hframe0.
+      + split; [unfold cs_ent, ent; cbn [cs_counts]; now rewrite assoc_m_del_same|].
+        intros _. cbn [cs_pending]. apply zget_del_same.
+    - eexists. split5; [reflexivity | exact Hn | | | ].
+      + intros k N. unfold cs_ent, ent. cbn [cs_counts cs_pending].
+        rewrite zget_set_other by congruence. rewrite !assoc_m_set_other by congruence. reflexivity.
+      + intros k N. cbn [cs_counts cs_pending]. rewrite zget_set_other by congruence.
+        rewrite !assoc_m_set_other by congruence. now apply Hframe0.
+      + split; [unfold cs_ent, ent; cbn [cs_counts cs_pending]; now rewrite assoc_m_set_same, zget_set_same|].
+        cbn [cs_counts]. rewrite assoc_m_set_same. discriminate. }
+  destruct Hsame as [o' [E [Hsz [Hoth [Hoth0 [Hid Hid0]]]]]].
+  exists o'. split5; auto.
+  split; [exact Hsz|]. intro k. destruct (str_dec id k) as [<-|N].
+  - split; [|exact Hid0]. fold (cs_ent o' id). rewrite Hid. apply w_put_ok. apply (Hok id).
+  - split; [|apply Hoth0; congruence]. fold (cs_ent o' k). rewrite Hoth by congruence. apply (Hok k).
 Qed.
-
 (* ------------------------------------------------------------------ *)
 (** * 5. The global invariant: the session does not panic *)
 
@@ -941,8 +1211,8 @@ Proof.
   unfold state_ok, init. cbn [st_dead st_rs st_os st_cs].
   split; [reflexivity|]. split; [|split].
   - split; [reflexivity|]. intro k. unfold rs_phase, rs_view. cbn. auto.
-  - split; [reflexivity|]. intros k l H; discriminate.
-  - split; [reflexivity|]. intros k l H; discriminate.
+  - split; [reflexivity|]. intro k. split; [exact I | reflexivity].
+  - split; [reflexivity|]. intro k. split; [exact I | reflexivity].
 Qed.
 
 Lemma state_ok_intro n s :
@@ -978,8 +1248,8 @@ Proof.
   destruct x as [sub fs|sub|id|sub|i m]; cbn [fst].
   - apply state_ok_intro; cbn [with_rs st_dead st_rs st_os st_cs]; auto. now apply rs_set_sub_ok.
   - apply state_ok_intro; cbn [with_rs st_dead st_rs st_os st_cs]; auto. now apply rs_clear_ok.
-  - apply state_ok_intro; cbn [with_os st_dead st_rs st_os st_cs]; auto. now apply os_try_set_ok.
-  - apply state_ok_intro; cbn [with_cs st_dead st_rs st_os st_cs]; auto. now apply cs_set_sub_ok.
+  - apply state_ok_intro; cbn [with_os st_dead st_rs st_os st_cs]; auto. now apply os_try_set_spec.
+  - apply state_ok_intro; cbn [with_cs st_dead st_rs st_os st_cs]; auto. now apply cs_set_sub_spec.
   - destruct m as [sub|sub e|m|c|t|sub p t]; cbn [input_ok] in Hx.
     + destruct (send_eose_spec n s i sub Hr Hx) as [r' [E U]]. rewrite E. cbn [fst].
       apply state_ok_intro; cbn [with_rs st_dead st_rs st_os st_cs]; auto.
@@ -1710,682 +1980,31 @@ Proof.
     destruct (h_event_unsendable b); cbn in H; congruence.
   - unfold send_ok in H. destruct (os_set_msg (st_os s) i m) as [o1|]; [|discriminate].
     destruct (h_ok_not_ready _); [discriminate|]. destruct (os_msg o1 (ok_id m)) as [r|]; [|discriminate].
-    exists r. cbn in H. congruence.
+    destruct (os_clear o1 (ok_id m)); [|discriminate]. exists r. cbn in H. congruence.
   - unfold send_count in H. destruct (cs_set_msg (st_cs s) i c) as [c1|]; [|discriminate].
     destruct (h_count_not_ready _); [discriminate|]. destruct (cs_msg c1 (c_sub c)) as [r|]; [|discriminate].
-    exists r. cbn in H. congruence.
+    destruct (cs_clear c1 (c_sub c)); [|discriminate]. exists r. cbn in H. congruence.
   - cbn in H. congruence.
   - cbn in H. congruence.
 Qed.
 
 (* ------------------------------------------------------------------ *)
-(** * 9. C09: one EVENT window *)
-
-Definition is_ok_in (id : str) (x : input) : bool :=
-  match x with Child _ (SOk m) => str_eqb (ok_id m) id | _ => false end.
-
-Lemma latest_ok_snoc id i w x : forall acc,
-  latest_ok id i (w ++ [x]) acc =
-  match x with
-  | Child j (SOk m) => if Nat.eqb j i && str_eqb (ok_id m) id then Some m else latest_ok id i w acc
-  | _ => latest_ok id i w acc
-  end.
-Proof.
-  induction w as [|y w IH]; intro acc.
-  - cbn. destruct x as [| | | |j [| |m| | |]]; reflexivity.
-  - cbn [app latest_ok]. destruct y as [| | | |j' [| |m'| | |]]; try apply IH.
-    destruct (Nat.eqb j' i && str_eqb (ok_id m') id); apply IH.
-Qed.
-
-Lemma latest_ok_key id i w : forall acc a,
-  latest_ok id i w acc = Some a -> acc = Some a \/ ok_id a = id.
-Proof.
-  induction w as [|y w IH]; intros acc a H; [now left|].
-  cbn [latest_ok] in H. destruct y as [| | | |j [| |m| | |]]; try (now apply IH).
-  destruct (Nat.eqb j i && str_eqb (ok_id m) id) eqn:E; [|now apply IH].
-  destruct (IH _ _ H) as [E1|E1]; [|now right]. inversion E1; subst. right.
-  apply andb_true_iff in E as [_ E]. now apply str_eqb_eq in E.
-Qed.
-
-Lemma ok_replies_snoc_other n id w x : is_ok_in id x = false -> ok_replies n id (w ++ [x]) = ok_replies n id w.
-Proof.
-  intro H. unfold ok_replies. apply map_ext. intro i. rewrite latest_ok_snoc.
-  destruct x as [| | | |j [| |m| | |]]; try reflexivity. cbn in H. rewrite H, andb_false_r. reflexivity.
-Qed.
-
-Lemma ok_replies_snoc_ok n w j m :
-  (j < n)%nat ->
-  upd_nth j (Some m) (ok_replies n (ok_id m) w) = Some (ok_replies n (ok_id m) (w ++ [Child j (SOk m)])).
-Proof.
-  intro Hj. unfold ok_replies. rewrite upd_nth_map_seq by assumption. f_equal.
-  apply map_ext. intro i. rewrite latest_ok_snoc, str_eqb_refl, andb_true_r. cbn [Nat.add].
-  rewrite (Nat.eqb_sym j i). reflexivity.
-Qed.
-
-Lemma ok_replies_nil n id : ok_replies n id [] = repeat None n.
-Proof.
-  unfold ok_replies. cbn [latest_ok]. generalize 0%nat.
-  induction n as [|n IH]; intro a; cbn; [reflexivity | now rewrite IH].
-Qed.
-
-Lemma all_replied_nil n id : (1 <= n)%nat -> all_replied n id [] = false.
-Proof. intro H. unfold all_replied. rewrite ok_replies_nil. destruct n; [lia | reflexivity]. Qed.
-
-Lemma ok_replies_length n id w : length (ok_replies n id w) = n.
-Proof. unfold ok_replies. now rewrite map_length, seq_length. Qed.
-
-Lemma latest_ok_mono id i w x acc : latest_ok id i w acc <> None -> latest_ok id i (w ++ [x]) acc <> None.
-Proof.
-  intro H. rewrite latest_ok_snoc. destruct x as [| | | |j [| |m| | |]]; try assumption.
-  destruct (Nat.eqb j i && str_eqb (ok_id m) id); [discriminate | assumption].
-Qed.
-
-Lemma existsb_isNone_map {A} (f : nat -> option A) l :
-  existsb isNone (List.map f l) = false <-> forall i, In i l -> f i <> None.
-Proof.
-  induction l as [|a l IH]; cbn; [split; [intros _ i [] | reflexivity]|].
-  rewrite orb_false_iff, IH. split.
-  - intros [H1 H2] i [<-|Hi]; [destruct (f a); [discriminate | discriminate] | now apply H2].
-  - intro H. split; [|intros i Hi; apply H; now right].
-    specialize (H a (or_introl eq_refl)). destruct (f a); [reflexivity | congruence].
-Qed.
-
-Lemma all_replied_mono n id w x : all_replied n id w = true -> all_replied n id (w ++ [x]) = true.
-Proof.
-  unfold all_replied, ok_replies. rewrite !negb_true_iff, !existsb_isNone_map.
-  intros H i Hi. apply latest_ok_mono. now apply H.
-Qed.
-
-Lemma all_replied_snoc_other n id w x : is_ok_in id x = false -> all_replied n id (w ++ [x]) = all_replied n id w.
-Proof. intro H. unfold all_replied. now rewrite ok_replies_snoc_other. Qed.
-
-(** the merged reply carries the key its slot vector is stored under *)
-Lemma ok_merge_key k l r :
-  ok_merge l = Some r -> (forall a, In (Some a) l -> ok_id a = k) -> ok_id r = k.
-Proof.
-  unfold ok_merge. intros H Hk.
-  assert (P : forall l oks ngs, ok_partition l = Some (oks, ngs) ->
-              forall a, In a oks \/ In a ngs -> In (Some a) l).
-  { clear. induction l as [|[x|] l IH]; cbn; intros oks ngs H a Ha; try discriminate.
-    - inversion H; subst. destruct Ha as [[]|[]].
-    - destruct (ok_partition l) as [[oks' ngs']|]; [|discriminate].
-      destruct (h_ok_is_accepted (ok_acc x)); inversion H; subst.
-      + destruct Ha as [[<-|Ha]|Ha]; [now left | right; eapply IH; eauto | right; eapply IH; eauto].
-      + destruct Ha as [Ha|[<-|Ha]]; [right; eapply IH; eauto | now left | right; eapply IH; eauto]. }
-  destruct (ok_partition l) as [[oks ngs]|] eqn:Ep; [|discriminate].
-  destruct (h_ok_any_rejected (zlen ngs)).
-  - destruct ngs as [|m0 ngs]; [discriminate|]. inversion H; subst. cbn. apply Hk.
-    apply (P l oks (m0 :: ngs) Ep). right. now left.
-  - destruct oks as [|m0 oks]; [discriminate|]. inversion H; subst. cbn. apply Hk.
-    apply (P l (m0 :: oks) ngs Ep). left. now left.
-Qed.
-
-Lemma w_put_full_In {A} (v : option (list (option A))) i a l' b :
-  snd (w_put v i a) = Some l' -> In (Some b) l' -> b = a \/ In (Some b) (vlist v).
-Proof.
-  unfold w_put. destruct v as [[|x l]|]; cbn [snd]; try discriminate.
-  destruct (upd_nth i (Some a) (x :: l)) as [l2|] eqn:Eu; [|discriminate].
-  destruct (existsb isNone l2); cbn [snd]; [discriminate|]. intros H Hin. inversion H; subst.
-  destruct (upd_nth_In _ _ _ _ _ Eu Hin) as [E|Hi]; [left; now inversion E | right; exact Hi].
-Qed.
-
-(** inputs that are neither EVENT [id] nor an OK for [id] leave [id]'s slots
-    alone and produce no OK for [id] *)
-Lemma os_frame n s x id :
-  state_ok n s -> input_ok n x -> is_cevent_of id x = false -> is_ok_in id x = false ->
-  assoc id (os_s (st_os (fst (merge_step s x)))) = assoc id (os_s (st_os s)) /\
-  is_ok_out id (snd (merge_step s x)) = false.
-Proof.
-  intros [Hd [Hr [Ho Hc]]] Hx Hce Hok. unfold merge_step. rewrite Hd.
-  destruct x as [s' fs|s'|id'|s'|i m]; cbn [fst snd with_rs with_os with_cs st_os]; try (split; reflexivity).
-  - cbn in Hce. apply str_eqb_neq in Hce. split; [|reflexivity].
-    unfold os_try_set. destruct (h_ok_has_slot _); [reflexivity|]. cbn [os_s]. now apply assoc_m_set_other.
-  - destruct m as [s'|s' e|m|c|t|s' p t]; cbn [input_ok] in Hx.
-    + destruct (send_eose_spec n s i s' Hr Hx) as [r' [E _]]. rewrite E. split; [reflexivity|].
-      cbn [snd]. destruct (snd (w_eose _ i)); reflexivity.
-    + destruct Hx as [Hi Hne]. destruct (send_event_spec n s i s' e Hr Hi Hne) as [r' [E _]]. rewrite E.
-      split; [reflexivity|]. cbn [snd]. destruct (snd (w_event _ i e)); reflexivity.
-    + cbn in Hok. apply str_eqb_neq in Hok.
-      destruct (send_ok_spec n s i m Ho Hx) as [o' [E [Ho' [Hf [Hs' Hfull]]]]]. rewrite E. cbn [fst snd with_os st_os].
-      split; [apply Hf; congruence|].
-      unfold out_ok. destruct (snd (w_put _ i m)) as [l'|] eqn:Ew; [|reflexivity].
-      destruct (ok_merge l') as [r|] eqn:Em; [|reflexivity]. cbn [option_map is_ok_out].
-      apply str_eqb_neq. intro Er. apply Hok. rewrite <- Er. symmetry.
-      apply (ok_merge_key (ok_id m) l' r Em). intros a Ha.
-      destruct (w_put_full_In _ _ _ _ _ Ew Ha) as [->|Hin]; [reflexivity|].
-      destruct (assoc (ok_id m) (os_s (st_os s))) as [l|] eqn:Ea; [|destruct Hin].
-      apply (proj2 (proj2 Ho _ _ Ea)). exact Hin.
-    + destruct (send_count_spec n s i c Hc Hx) as [c' [E _]]. rewrite E. split; [reflexivity|].
-      cbn [snd]. unfold out_cnt. destruct (snd (w_put _ i c)); [|reflexivity]. destruct (cnt_merge _); reflexivity.
-    + split; reflexivity.
-    + split; reflexivity.
-Qed.
-
-Lemma no_cevent_snoc id w x : no_cevent id (w ++ [x]) -> no_cevent id w /\ is_cevent_of id x = false.
-Proof.
-  intro H. split; [intros y Hy; apply H; apply in_or_app; now left | apply H; apply in_or_app; right; now left].
-Qed.
+(** * 9. Histories: general lemmas *)
 
 Lemma final_snoc s w x : final s (w ++ [x]) = fst (merge_step (final s w) x).
-Proof. unfold final. rewrite exec_app. cbn [fst exec]. destruct (merge_step _ x); reflexivity. Qed.
+Proof. unfold final. rewrite exec_app. cbn [fst exec]. now destruct (merge_step _ x). Qed.
 
 Lemma outs_snoc s w x : outs s (w ++ [x]) = outs s w ++ [snd (merge_step (final s w) x)].
-Proof. unfold outs, final. rewrite exec_app. cbn [snd exec]. destruct (merge_step _ x); reflexivity. Qed.
-
-(** the slot vector of [id] along an EVENT window, and the output of each step *)
-Lemma ok_window_inv n id s1 w :
-  (1 <= n)%nat -> state_ok n s1 -> assoc id (os_s (st_os s1)) = Some (repeat None n) ->
-  trace_ok n w -> no_cevent id w ->
-  assoc id (os_s (st_os (final s1 w))) = if all_replied n id w then None else Some (ok_replies n id w).
-Proof.
-  intros Hn Hs1 H0. induction w as [|x w IH] using rev_ind; intros Ht Hnc.
-  - rewrite (all_replied_nil n id Hn), ok_replies_nil. exact H0.
-  - destruct (trace_ok_snoc _ _ _ Ht) as [Ht1 Hx]. destruct (no_cevent_snoc _ _ _ Hnc) as [Hnc1 Hcx].
-    specialize (IH Ht1 Hnc1). rewrite final_snoc.
-    assert (Hs : state_ok n (final s1 w)) by now apply exec_ok.
-    destruct (is_ok_in id x) eqn:Eok.
-    2:{ destruct (os_frame n _ x id Hs Hx Hcx Eok) as [F _]. rewrite F, IH.
-        now rewrite (all_replied_snoc_other n id w x Eok), (ok_replies_snoc_other n id w x Eok). }
-    destruct x as [| | | |j [| |m| | |]]; try discriminate. cbn in Eok. apply str_eqb_eq in Eok. subst id.
-    cbn [input_ok] in Hx. destruct Hs as [Hd [Hr [Ho Hc]]].
-    destruct (send_ok_spec n (final s1 w) j m Ho Hx) as [o' [E [Ho' [Hf [Hs' Hfull]]]]].
-    unfold merge_step. rewrite Hd, E. cbn [fst with_os st_os]. rewrite Hs', IH.
-    destruct (all_replied n (ok_id m) w) eqn:Ea.
-    + now rewrite (all_replied_mono n (ok_id m) w _ Ea).
-    + unfold w_put.
-      assert (Hne : ok_replies n (ok_id m) w <> []).
-      { intro E0. pose proof (ok_replies_length n (ok_id m) w) as L. rewrite E0 in L. cbn in L. lia. }
-      destruct (ok_replies n (ok_id m) w) as [|y l] eqn:El; [congruence|]. rewrite <- El.
-      rewrite (ok_replies_snoc_ok n w j m Hx). unfold all_replied.
-      destruct (existsb isNone (ok_replies n (ok_id m) (w ++ [Child j (SOk m)]))); reflexivity.
-Qed.
-
-Lemma ok_window_out n id s1 w x :
-  (1 <= n)%nat -> state_ok n s1 -> assoc id (os_s (st_os s1)) = Some (repeat None n) ->
-  trace_ok n (w ++ [x]) -> no_cevent id (w ++ [x]) ->
-  if negb (all_replied n id w) && all_replied n id (w ++ [x])
-  then exists r, snd (merge_step (final s1 w) x) = Some (SOk r) /\ ok_id r = id /\
-                 ok_merge (ok_replies n id (w ++ [x])) = Some r
-  else is_ok_out id (snd (merge_step (final s1 w) x)) = false.
-Proof.
-  intros Hn Hs1 H0 Ht Hnc.
-  destruct (trace_ok_snoc _ _ _ Ht) as [Ht1 Hx]. destruct (no_cevent_snoc _ _ _ Hnc) as [Hnc1 Hcx].
-  pose proof (ok_window_inv n id s1 w Hn Hs1 H0 Ht1 Hnc1) as Hinv.
-  assert (Hs : state_ok n (final s1 w)) by now apply exec_ok.
-  destruct (is_ok_in id x) eqn:Eok.
-  2:{ destruct (os_frame n _ x id Hs Hx Hcx Eok) as [_ O].
-      rewrite (all_replied_snoc_other n id w x Eok). now rewrite andb_negb_l. }
-  destruct x as [| | | |j [| |m| | |]]; try discriminate. cbn in Eok. apply str_eqb_eq in Eok. subst id.
-  cbn [input_ok] in Hx. destruct Hs as [Hd [Hr [Ho Hc]]].
-  destruct (send_ok_spec n (final s1 w) j m Ho Hx) as [o' [E [Ho' [Hf [Hs' Hfull]]]]].
-  unfold merge_step. rewrite Hd, E. cbn [snd]. rewrite Hinv in *.
-  destruct (all_replied n (ok_id m) w) eqn:Ea; cbn [negb andb].
-  - reflexivity.
-  - assert (Hne : ok_replies n (ok_id m) w <> []).
-    { intro E0. pose proof (ok_replies_length n (ok_id m) w) as L. rewrite E0 in L. cbn in L. lia. }
-    assert (W : w_put (Some (ok_replies n (ok_id m) w)) j m =
-                if existsb isNone (ok_replies n (ok_id m) (w ++ [Child j (SOk m)]))
-                then (Some (ok_replies n (ok_id m) (w ++ [Child j (SOk m)])), None)
-                else (None, Some (ok_replies n (ok_id m) (w ++ [Child j (SOk m)])))).
-    { unfold w_put. destruct (ok_replies n (ok_id m) w) as [|y l] eqn:El; [congruence|]. rewrite <- El.
-      now rewrite (ok_replies_snoc_ok n w j m Hx). }
-    rewrite W in *. unfold all_replied.
-    destruct (existsb isNone (ok_replies n (ok_id m) (w ++ [Child j (SOk m)]))) eqn:Ex; cbn [negb snd out_ok] in *.
-    + reflexivity.
-    + destruct (Hfull _ eq_refl) as [r Er]. rewrite Er. cbn [option_map]. exists r. split; [reflexivity|].
-      split; [|reflexivity]. apply (ok_merge_key (ok_id m) _ r Er).
-      intros a Ha. unfold ok_replies in Ha. apply in_map_iff in Ha as [i [Hl _]].
-      destruct (latest_ok_key _ _ _ _ _ Hl) as [Hk|Hk]; [discriminate | exact Hk].
-Qed.
-
-Lemma filter_first {A} (p : A -> bool) l x rest :
-  filter p l = x :: rest ->
-  exists before after, l = before ++ x :: after /\ (forall b, In b before -> p b = false) /\ p x = true.
-Proof.
-  induction l as [|a l IH]; cbn; [discriminate|].
-  destruct (p a) eqn:E.
-  - intro H. inversion H; subst. exists [], l. repeat split; auto. intros b [].
-  - intro H. destruct (IH H) as [before [after [-> [Hb Hx]]]].
-    exists (a :: before), after. repeat split; auto. intros b [<-|Hin]; auto.
-Qed.
-
-Lemma filter_nil_all {A} (p : A -> bool) l : filter p l = [] -> forall x, In x l -> p x = false.
-Proof.
-  induction l as [|a l IH]; cbn; [intros _ x []|].
-  destruct (p a) eqn:E; [discriminate|]. intros H x [<-|Hin]; auto.
-Qed.
-
-(** the merged OK is what the property asks for *)
-Lemma ok_merge_verdict id xs r :
-  ok_merge (List.map Some xs) = Some r -> (forall a, In a xs -> ok_id a = id) -> ok_verdict_spec id xs r.
-Proof.
-  unfold ok_merge. rewrite ok_partition_some, g_ok_any_rejected_spec. intros H Hk.
-  destruct (filter (fun m => negb (ok_acc m)) xs) as [|ng ngs] eqn:En; cbn [negb] in H.
-  - pose proof (filter_nil_all _ _ En) as Hall. rewrite (filter_all_false _ _ En) in H.
-    destruct xs as [|m0 xs']; [discriminate|]. cbn in H. inversion H; subst r. clear H.
-    assert (Hacc : forall x, In x (m0 :: xs') -> ok_acc x = true).
-    { intros x Hx. specialize (Hall x Hx). now apply negb_false_iff in Hall. }
-    unfold ok_verdict_spec. cbn [ok_id ok_acc]. split; [apply Hk; now left|]. split.
-    + split; [intros _; exact Hacc | intros _; apply Hacc; now left].
-    + intro Hf. rewrite (Hacc m0 (or_introl eq_refl)) in Hf. discriminate.
-  - cbn in H. inversion H; subst r. clear H.
-    destruct (filter_first _ _ _ _ En) as [before [after [Exs [Hb Hng]]]].
-    apply negb_true_iff in Hng.
-    unfold ok_verdict_spec. cbn [ok_id ok_acc]. split; [apply Hk; rewrite Exs; apply in_or_app; right; now left|].
-    split.
-    + rewrite Hng. split; [discriminate|]. intro Hall.
-      rewrite <- (Hall ng), Hng; [reflexivity|]. rewrite Exs. apply in_or_app. right. now left.
-    + intros _. exists before, ng, after, (concat (List.map ok_message ngs)). split; [exact Exs|]. split.
-      * intros b Hin. specialize (Hb b Hin). now apply negb_false_iff in Hb.
-      * split; [exact Hng | reflexivity].
-Qed.
-
-Lemma after_cevent n s id :
-  state_ok n s -> assoc id (os_s (st_os s)) = None ->
-  state_ok n (fst (merge_step s (CEvent id))) /\
-  assoc id (os_s (st_os (fst (merge_step s (CEvent id))))) = Some (repeat None n).
-Proof.
-  intros Hs H0. split; [apply step_ok; [assumption | exact I]|].
-  destruct Hs as [Hd [_ [[Hn _] _]]]. unfold merge_step. rewrite Hd. cbn [fst with_os st_os].
-  unfold os_try_set. rewrite H0. cbn [vlist]. rewrite g_ok_has_slot_spec. cbn [negb os_s].
-  now rewrite assoc_m_set_same, Hn.
-Qed.
-
-Lemma outs_nth s w1 x w2 :
-  nth_error (outs s (w1 ++ x :: w2)) (length w1) = Some (snd (merge_step (final s w1) x)).
-Proof.
-  unfold outs, final. rewrite exec_app. cbn [snd]. rewrite exec_cons. cbn [snd].
-  rewrite <- (outs_length s w1). apply nth_error_mid.
-Qed.
-
-(** every EVENT is answered by exactly one OK carrying its id, once every
-    child has replied; none before *)
-Theorem ok_exactly_one n s id w :
-  (1 <= n)%nat -> state_ok n s -> assoc id (os_s (st_os s)) = None ->
-  trace_ok n w -> no_cevent id w ->
-  count_occ_b (is_ok_out id) (evt_outs s id w) = if all_replied n id w then 1%nat else 0%nat.
-Proof.
-  intros Hn Hs H0. destruct (after_cevent n s id Hs H0) as [Hs1 H1]. unfold evt_outs.
-  set (s1 := fst (merge_step s (CEvent id))) in *.
-  induction w as [|x w IH] using rev_ind; intros Ht Hnc.
-  - now rewrite (all_replied_nil n id Hn).
-  - destruct (trace_ok_snoc _ _ _ Ht) as [Ht1 Hx]. destruct (no_cevent_snoc _ _ _ Hnc) as [Hnc1 Hcx].
-    rewrite outs_snoc, count_occ_b_app, (IH Ht1 Hnc1). cbn [count_occ_b].
-    pose proof (ok_window_out n id s1 w x Hn Hs1 H1 Ht Hnc) as Ho.
-    destruct (all_replied n id w) eqn:Ea; cbn [negb andb] in Ho.
-    + rewrite Ho, (all_replied_mono n id w x Ea). reflexivity.
-    + destruct (all_replied n id (w ++ [x])).
-      * destruct Ho as [r [-> [Er _]]]. cbn [is_ok_out]. now rewrite Er, str_eqb_refl.
-      * now rewrite Ho.
-Qed.
-
-Lemma no_cevent_mid id a x b : no_cevent id (a ++ x :: b) -> no_cevent id (a ++ [x]).
-Proof.
-  intros H y Hy. apply H. apply in_app_or in Hy as [Hy|[<-|[]]]; apply in_or_app; [now left | right; now left].
-Qed.
-
-(** the OK is output at the step of the last child's reply; it is built from
-    the children's (latest) replies in child order: accepting iff every
-    child accepted, and a rejecting one begins with the text of the
-    lowest-numbered rejecting child *)
-Theorem ok_verdict n s id w1 x w2 r :
-  (1 <= n)%nat -> state_ok n s -> assoc id (os_s (st_os s)) = None ->
-  trace_ok n (w1 ++ x :: w2) -> no_cevent id (w1 ++ x :: w2) ->
-  nth_error (evt_outs s id (w1 ++ x :: w2)) (length w1) = Some (Some (SOk r)) -> ok_id r = id ->
-  all_replied n id w1 = false /\
-  exists replies, ok_replies n id (w1 ++ [x]) = List.map Some replies /\ length replies = n /\
-                  ok_verdict_spec id replies r.
-Proof.
-  intros Hn Hs H0 Ht Hnc Hnth Hid. destruct (after_cevent n s id Hs H0) as [Hs1 H1].
-  unfold evt_outs in Hnth. rewrite outs_nth in Hnth. inversion Hnth as [Hout]. clear Hnth.
-  pose proof (ok_window_out n id _ w1 x Hn Hs1 H1 (trace_ok_mid _ _ _ _ Ht) (no_cevent_mid _ _ _ _ Hnc)) as Ho.
-  destruct (all_replied n id w1) eqn:Ea; cbn [negb andb] in Ho.
-  { rewrite Hout in Ho. cbn in Ho. rewrite Hid, str_eqb_refl in Ho. discriminate. }
-  split; [reflexivity|].
-  destruct (all_replied n id (w1 ++ [x])) eqn:Ea'.
-  2:{ rewrite Hout in Ho. cbn in Ho. rewrite Hid, str_eqb_refl in Ho. discriminate. }
-  destruct Ho as [r' [Er' [_ Em]]]. rewrite Hout in Er'. inversion Er'; subst r'.
-  unfold all_replied in Ea'. apply negb_true_iff in Ea'.
-  destruct (full_vector _ Ea') as [xs Exs]. exists xs. split; [exact Exs|]. split.
-  - rewrite <- (map_length Some xs), <- Exs. apply ok_replies_length.
-  - apply ok_merge_verdict; [now rewrite <- Exs|].
-    intros a Ha. assert (Hin : In (Some a) (ok_replies n id (w1 ++ [x]))) by (rewrite Exs; now apply in_map).
-    unfold ok_replies in Hin. apply in_map_iff in Hin as [i [Hl _]].
-    destruct (latest_ok_key _ _ _ _ _ Hl) as [Hk|Hk]; [discriminate | exact Hk].
-Qed.
-
-(** a history without EVENT [id] never creates a slot for it *)
-Lemma no_cevent_slot_none n id w : forall s,
-  state_ok n s -> assoc id (os_s (st_os s)) = None -> trace_ok n w -> no_cevent id w ->
-  assoc id (os_s (st_os (final s w))) = None.
-Proof.
-  induction w as [|x w IH]; intros s Hs H0 Ht Hnc; [exact H0|].
-  inversion Ht as [|? ? Hx Ht']; subst. unfold final. rewrite exec_cons. cbn [fst].
-  apply IH; [now apply step_ok | | assumption | intros y Hy; apply Hnc; now right].
-  assert (Hcx : is_cevent_of id x = false) by (apply Hnc; now left).
-  destruct (is_ok_in id x) eqn:Eok.
-  2:{ destruct (os_frame n s x id Hs Hx Hcx Eok) as [F _]. now rewrite F. }
-  destruct x as [| | | |j [| |m| | |]]; try discriminate. cbn in Eok. apply str_eqb_eq in Eok. subst id.
-  cbn [input_ok] in Hx. destruct Hs as [Hd [Hr [Ho Hc]]].
-  destruct (send_ok_spec n s j m Ho Hx) as [o' [E [_ [_ [Hs' _]]]]].
-  unfold merge_step. rewrite Hd, E. cbn [fst with_os st_os]. rewrite Hs', H0. reflexivity.
-Qed.
+Proof. unfold outs, final. rewrite exec_app. cbn [snd exec]. now destruct (merge_step _ x). Qed.
 
 Lemma final_app s a b : final s (a ++ b) = final (final s a) b.
-Proof. unfold final. rewrite exec_app. reflexivity. Qed.
+Proof. unfold final. now rewrite exec_app. Qed.
 
-Lemma final_cons s x t : final s (x :: t) = final (fst (merge_step s x)) t.
-Proof. unfold final. rewrite exec_cons. reflexivity. Qed.
+Lemma outs_cons s x t : outs s (x :: t) = snd (merge_step s x) :: outs (fst (merge_step s x)) t.
+Proof. unfold outs. now rewrite exec_cons. Qed.
 
-(** "no request with this id in flight", read off the history, means: the
-    model holds no slot vector for the id *)
-Theorem idle_ev_slot n id pre :
-  (1 <= n)%nat -> trace_ok n pre -> idle_ev n id pre ->
-  assoc id (os_s (st_os (final (init n) pre))) = None.
-Proof.
-  intros Hn Ht Hi. induction Hi as [pre Hnc | pre w Hi IH Hnc Ha].
-  - apply (no_cevent_slot_none n id pre); try assumption; [apply init_ok | reflexivity].
-  - destruct (trace_ok_app _ _ _ Ht) as [Ht1 Ht2]. inversion Ht2 as [|? ? _ Htw]; subst.
-    specialize (IH Ht1). rewrite final_app, final_cons.
-    assert (Hs : state_ok n (final (init n) pre)) by (apply exec_ok; [apply init_ok | assumption]).
-    destruct (after_cevent n _ id Hs IH) as [Hs1 H1].
-    rewrite (ok_window_inv n id _ w Hn Hs1 H1 Htw Hnc), Ha. reflexivity.
-Qed.
-
-(* ------------------------------------------------------------------ *)
-(** * 10. C09: one COUNT window *)
-
-Definition is_cnt_in (sub : str) (x : input) : bool :=
-  match x with Child _ (SCount m) => str_eqb (c_sub m) sub | _ => false end.
-
-Lemma latest_cnt_snoc sub i w x : forall acc,
-  latest_cnt sub i (w ++ [x]) acc =
-  match x with
-  | Child j (SCount m) => if Nat.eqb j i && str_eqb (c_sub m) sub then Some m else latest_cnt sub i w acc
-  | _ => latest_cnt sub i w acc
-  end.
-Proof.
-  induction w as [|y w IH]; intro acc.
-  - cbn. destruct x as [| | | |j [| | |m| |]]; reflexivity.
-  - cbn [app latest_cnt]. destruct y as [| | | |j' [| | |m'| |]]; try apply IH.
-    destruct (Nat.eqb j' i && str_eqb (c_sub m') sub); apply IH.
-Qed.
-
-Lemma latest_cnt_key sub i w : forall acc a,
-  latest_cnt sub i w acc = Some a -> acc = Some a \/ c_sub a = sub.
-Proof.
-  induction w as [|y w IH]; intros acc a H; [now left|].
-  cbn [latest_cnt] in H. destruct y as [| | | |j [| | |m| |]]; try (now apply IH).
-  destruct (Nat.eqb j i && str_eqb (c_sub m) sub) eqn:E; [|now apply IH].
-  destruct (IH _ _ H) as [E1|E1]; [|now right]. inversion E1; subst. right.
-  apply andb_true_iff in E as [_ E]. now apply str_eqb_eq in E.
-Qed.
-
-Lemma cnt_replies_snoc_other n sub w x : is_cnt_in sub x = false -> cnt_replies n sub (w ++ [x]) = cnt_replies n sub w.
-Proof.
-  intro H. unfold cnt_replies. apply map_ext. intro i. rewrite latest_cnt_snoc.
-  destruct x as [| | | |j [| | |m| |]]; try reflexivity. cbn in H. rewrite H, andb_false_r. reflexivity.
-Qed.
-
-Lemma cnt_replies_snoc_cnt n w j m :
-  (j < n)%nat ->
-  upd_nth j (Some m) (cnt_replies n (c_sub m) w) = Some (cnt_replies n (c_sub m) (w ++ [Child j (SCount m)])).
-Proof.
-  intro Hj. unfold cnt_replies. rewrite upd_nth_map_seq by assumption. f_equal.
-  apply map_ext. intro i. rewrite latest_cnt_snoc, str_eqb_refl, andb_true_r. cbn [Nat.add].
-  rewrite (Nat.eqb_sym j i). reflexivity.
-Qed.
-
-Lemma cnt_replies_nil n sub : cnt_replies n sub [] = repeat None n.
-Proof.
-  unfold cnt_replies. cbn [latest_cnt]. generalize 0%nat.
-  induction n as [|n IH]; intro a; cbn; [reflexivity | now rewrite IH].
-Qed.
-
-Lemma all_counted_nil n sub : (1 <= n)%nat -> all_counted n sub [] = false.
-Proof. intro H. unfold all_counted. rewrite cnt_replies_nil. destruct n; [lia | reflexivity]. Qed.
-
-Lemma cnt_replies_length n sub w : length (cnt_replies n sub w) = n.
-Proof. unfold cnt_replies. now rewrite map_length, seq_length. Qed.
-
-Lemma latest_cnt_mono sub i w x acc : latest_cnt sub i w acc <> None -> latest_cnt sub i (w ++ [x]) acc <> None.
-Proof.
-  intro H. rewrite latest_cnt_snoc. destruct x as [| | | |j [| | |m| |]]; try assumption.
-  destruct (Nat.eqb j i && str_eqb (c_sub m) sub); [discriminate | assumption].
-Qed.
-
-Lemma all_counted_mono n sub w x : all_counted n sub w = true -> all_counted n sub (w ++ [x]) = true.
-Proof.
-  unfold all_counted, cnt_replies. rewrite !negb_true_iff, !existsb_isNone_map.
-  intros H i Hi. apply latest_cnt_mono. now apply H.
-Qed.
-
-Lemma all_counted_snoc_other n sub w x : is_cnt_in sub x = false -> all_counted n sub (w ++ [x]) = all_counted n sub w.
-Proof. intro H. unfold all_counted. now rewrite cnt_replies_snoc_other. Qed.
-
-Lemma first_max_spec l : forall m,
-  In (first_max m l) (m :: l) /\ forall x, In x (m :: l) -> c_count x <= c_count (first_max m l).
-Proof.
-  induction l as [|a l IH]; intro m; cbn [first_max].
-  - split; [now left | intros x [<-|[]]; lia].
-  - destruct (c_count a >? c_count m) eqn:E.
-    + apply Z.gtb_lt in E. destruct (IH a) as [H1 H2]. split.
-      * right. exact H1.
-      * intros x [<-|Hx]; [|now apply H2]. specialize (H2 a (or_introl eq_refl)). lia.
-    + assert (c_count a <= c_count m) by (destruct (Z.gtb_spec (c_count a) (c_count m)); [discriminate | lia]).
-      destruct (IH m) as [H1 H2]. split.
-      * destruct H1 as [H1|H1]; [now left | right; now right].
-      * intros x [<-|[<-|Hx]]; [apply H2; now left | specialize (H2 m (or_introl eq_refl)); lia | apply H2; now right].
-Qed.
-
-(** ... and it is the first of the maximal ones *)
-Lemma first_max_first l : forall m,
-  exists before after, m :: l = before ++ first_max m l :: after /\
-                       forall b, In b before -> c_count b < c_count (first_max m l).
-Proof.
-  induction l as [|a l IH]; intro m; cbn [first_max].
-  - exists [], []. split; [reflexivity | intros b []].
-  - destruct (c_count a >? c_count m) eqn:E.
-    + apply Z.gtb_lt in E. destruct (IH a) as [before [after [Eq Hb]]].
-      exists (m :: before), after. split; [cbn [app]; now rewrite <- Eq|].
-      intros b [<-|Hin]; [|now apply Hb].
-      destruct (first_max_spec l a) as [_ H2]. specialize (H2 a (or_introl eq_refl)). lia.
-    + assert (Ha : c_count a <= c_count m) by (destruct (Z.gtb_spec (c_count a) (c_count m)); [discriminate | lia]).
-      destruct (IH m) as [before [after [Eq Hb]]].
-      destruct before as [|b0 before]; cbn [app] in Eq; injection Eq as Em El.
-      * exists [], (a :: l). split; [cbn [app]; now rewrite <- Em | intros b []].
-      * subst b0. exists (m :: a :: before), after. split; [cbn [app]; now rewrite <- El|].
-        intros b [<-|[<-|Hin]].
-        -- apply Hb. now left.
-        -- specialize (Hb m (or_introl eq_refl)). lia.
-        -- apply Hb. now right.
-Qed.
-
-Lemma cnt_merge_max sub xs r :
-  cnt_merge (List.map Some xs) = Some r -> (forall a, In a xs -> c_sub a = sub) -> count_max_spec sub xs r.
-Proof.
-  unfold cnt_merge. rewrite all_some_map. destruct xs as [|m l]; [discriminate|]. intros H Hk.
-  inversion H; subst r. destruct (first_max_spec l m) as [H1 H2].
-  unfold count_max_spec. split; [now apply Hk|]. split; assumption.
-Qed.
-
-Lemma cnt_merge_key k l r :
-  cnt_merge l = Some r -> (forall a, In (Some a) l -> c_sub a = k) -> c_sub r = k.
-Proof.
-  unfold cnt_merge. intros H Hk. destruct (all_some l) as [xs|] eqn:Ea; [|discriminate].
-  assert (El : l = List.map Some xs).
-  { clear - Ea. revert xs Ea. induction l as [|[x|] l IH]; cbn; intros xs Ea; try discriminate.
-    - now inversion Ea.
-    - destruct (all_some l) as [r'|]; [|discriminate]. inversion Ea; subst. cbn. f_equal. now apply IH. }
-  destruct xs as [|m xs']; [discriminate|]. inversion H; subst r.
-  apply Hk. rewrite El. apply in_map. apply (proj1 (first_max_spec xs' m)).
-Qed.
-
-Lemma cs_frame n s x sub :
-  state_ok n s -> input_ok n x -> is_ccount_of sub x = false -> is_cnt_in sub x = false ->
-  assoc sub (cs_counts (st_cs (fst (merge_step s x)))) = assoc sub (cs_counts (st_cs s)) /\
-  is_count_out sub (snd (merge_step s x)) = false.
-Proof.
-  intros [Hd [Hr [Ho Hc]]] Hx Hce Hok. unfold merge_step. rewrite Hd.
-  destruct x as [s' fs|s'|id'|s'|i m]; cbn [fst snd with_rs with_os with_cs st_cs]; try (split; reflexivity).
-  - cbn in Hce. apply str_eqb_neq in Hce. split; [|reflexivity].
-    cbn [cs_set_sub cs_counts]. now apply assoc_m_set_other.
-  - destruct m as [s'|s' e|m|c|t|s' p t]; cbn [input_ok] in Hx.
-    + destruct (send_eose_spec n s i s' Hr Hx) as [r' [E _]]. rewrite E. split; [reflexivity|].
-      cbn [snd]. destruct (snd (w_eose _ i)); reflexivity.
-    + destruct Hx as [Hi Hne]. destruct (send_event_spec n s i s' e Hr Hi Hne) as [r' [E _]]. rewrite E.
-      split; [reflexivity|]. cbn [snd]. destruct (snd (w_event _ i e)); reflexivity.
-    + destruct (send_ok_spec n s i m Ho Hx) as [o' [E _]]. rewrite E. split; [reflexivity|].
-      cbn [snd]. unfold out_ok. destruct (snd (w_put _ i m)); [|reflexivity]. destruct (ok_merge _); reflexivity.
-    + cbn in Hok. apply str_eqb_neq in Hok.
-      destruct (send_count_spec n s i c Hc Hx) as [c' [E [Hc' [Hf [Hs' Hfull]]]]]. rewrite E. cbn [fst snd with_cs st_cs].
-      split; [apply Hf; congruence|].
-      unfold out_cnt. destruct (snd (w_put _ i c)) as [l'|] eqn:Ew; [|reflexivity].
-      destruct (cnt_merge l') as [r|] eqn:Em; [|reflexivity]. cbn [option_map is_count_out].
-      apply str_eqb_neq. intro Er. apply Hok. rewrite <- Er. symmetry.
-      apply (cnt_merge_key (c_sub c) l' r Em). intros a Ha.
-      destruct (w_put_full_In _ _ _ _ _ Ew Ha) as [->|Hin]; [reflexivity|].
-      destruct (assoc (c_sub c) (cs_counts (st_cs s))) as [l|] eqn:Ea; [|destruct Hin].
-      apply (proj2 (proj2 Hc _ _ Ea)). exact Hin.
-    + split; reflexivity.
-    + split; reflexivity.
-Qed.
-
-Lemma no_ccount_snoc sub w x : no_ccount sub (w ++ [x]) -> no_ccount sub w /\ is_ccount_of sub x = false.
-Proof.
-  intro H. split; [intros y Hy; apply H; apply in_or_app; now left | apply H; apply in_or_app; right; now left].
-Qed.
-
-Lemma cnt_window_inv n sub s1 w :
-  (1 <= n)%nat -> state_ok n s1 -> assoc sub (cs_counts (st_cs s1)) = Some (repeat None n) ->
-  trace_ok n w -> no_ccount sub w ->
-  assoc sub (cs_counts (st_cs (final s1 w))) = if all_counted n sub w then None else Some (cnt_replies n sub w).
-Proof.
-  intros Hn Hs1 H0. induction w as [|x w IH] using rev_ind; intros Ht Hnc.
-  - rewrite (all_counted_nil n sub Hn), cnt_replies_nil. exact H0.
-  - destruct (trace_ok_snoc _ _ _ Ht) as [Ht1 Hx]. destruct (no_ccount_snoc _ _ _ Hnc) as [Hnc1 Hcx].
-    specialize (IH Ht1 Hnc1). rewrite final_snoc.
-    assert (Hs : state_ok n (final s1 w)) by now apply exec_ok.
-    destruct (is_cnt_in sub x) eqn:Eok.
-    2:{ destruct (cs_frame n _ x sub Hs Hx Hcx Eok) as [F _]. rewrite F, IH.
-        now rewrite (all_counted_snoc_other n sub w x Eok), (cnt_replies_snoc_other n sub w x Eok). }
-    destruct x as [| | | |j [| | |m| |]]; try discriminate. cbn in Eok. apply str_eqb_eq in Eok. subst sub.
-    cbn [input_ok] in Hx. destruct Hs as [Hd [Hr [Ho Hc]]].
-    destruct (send_count_spec n (final s1 w) j m Hc Hx) as [o' [E [Ho' [Hf [Hs' Hfull]]]]].
-    unfold merge_step. rewrite Hd, E. cbn [fst with_cs st_cs]. rewrite Hs', IH.
-    destruct (all_counted n (c_sub m) w) eqn:Ea.
-    + now rewrite (all_counted_mono n (c_sub m) w _ Ea).
-    + unfold w_put.
-      assert (Hne : cnt_replies n (c_sub m) w <> []).
-      { intro E0. pose proof (cnt_replies_length n (c_sub m) w) as L. rewrite E0 in L. cbn in L. lia. }
-      destruct (cnt_replies n (c_sub m) w) as [|y l] eqn:El; [congruence|]. rewrite <- El.
-      rewrite (cnt_replies_snoc_cnt n w j m Hx). unfold all_counted.
-      destruct (existsb isNone (cnt_replies n (c_sub m) (w ++ [Child j (SCount m)]))); reflexivity.
-Qed.
-
-Lemma cnt_window_out n sub s1 w x :
-  (1 <= n)%nat -> state_ok n s1 -> assoc sub (cs_counts (st_cs s1)) = Some (repeat None n) ->
-  trace_ok n (w ++ [x]) -> no_ccount sub (w ++ [x]) ->
-  if negb (all_counted n sub w) && all_counted n sub (w ++ [x])
-  then exists r, snd (merge_step (final s1 w) x) = Some (SCount r) /\ c_sub r = sub /\
-                 cnt_merge (cnt_replies n sub (w ++ [x])) = Some r
-  else is_count_out sub (snd (merge_step (final s1 w) x)) = false.
-Proof.
-  intros Hn Hs1 H0 Ht Hnc.
-  destruct (trace_ok_snoc _ _ _ Ht) as [Ht1 Hx]. destruct (no_ccount_snoc _ _ _ Hnc) as [Hnc1 Hcx].
-  pose proof (cnt_window_inv n sub s1 w Hn Hs1 H0 Ht1 Hnc1) as Hinv.
-  assert (Hs : state_ok n (final s1 w)) by now apply exec_ok.
-  destruct (is_cnt_in sub x) eqn:Eok.
-  2:{ destruct (cs_frame n _ x sub Hs Hx Hcx Eok) as [_ O].
-      rewrite (all_counted_snoc_other n sub w x Eok). now rewrite andb_negb_l. }
-  destruct x as [| | | |j [| | |m| |]]; try discriminate. cbn in Eok. apply str_eqb_eq in Eok. subst sub.
-  cbn [input_ok] in Hx. destruct Hs as [Hd [Hr [Ho Hc]]].
-  destruct (send_count_spec n (final s1 w) j m Hc Hx) as [o' [E [Ho' [Hf [Hs' Hfull]]]]].
-  unfold merge_step. rewrite Hd, E. cbn [snd]. rewrite Hinv in *.
-  destruct (all_counted n (c_sub m) w) eqn:Ea; cbn [negb andb].
-  - reflexivity.
-  - assert (Hne : cnt_replies n (c_sub m) w <> []).
-    { intro E0. pose proof (cnt_replies_length n (c_sub m) w) as L. rewrite E0 in L. cbn in L. lia. }
-    assert (W : w_put (Some (cnt_replies n (c_sub m) w)) j m =
-                if existsb isNone (cnt_replies n (c_sub m) (w ++ [Child j (SCount m)]))
-                then (Some (cnt_replies n (c_sub m) (w ++ [Child j (SCount m)])), None)
-                else (None, Some (cnt_replies n (c_sub m) (w ++ [Child j (SCount m)])))).
-    { unfold w_put. destruct (cnt_replies n (c_sub m) w) as [|y l] eqn:El; [congruence|]. rewrite <- El.
-      now rewrite (cnt_replies_snoc_cnt n w j m Hx). }
-    rewrite W in *. unfold all_counted.
-    destruct (existsb isNone (cnt_replies n (c_sub m) (w ++ [Child j (SCount m)]))) eqn:Ex; cbn [negb snd out_cnt] in *.
-    + reflexivity.
-    + destruct (Hfull _ eq_refl) as [r Er]. rewrite Er. cbn [option_map]. exists r. split; [reflexivity|].
-      split; [|reflexivity]. apply (cnt_merge_key (c_sub m) _ r Er).
-      intros a Ha. unfold cnt_replies in Ha. apply in_map_iff in Ha as [i [Hl _]].
-      destruct (latest_cnt_key _ _ _ _ _ Hl) as [Hk|Hk]; [discriminate | exact Hk].
-Qed.
-
-Lemma after_ccount n s sub :
-  state_ok n s ->
-  state_ok n (fst (merge_step s (CCount sub))) /\
-  assoc sub (cs_counts (st_cs (fst (merge_step s (CCount sub))))) = Some (repeat None n).
-Proof.
-  intros Hs. split; [apply step_ok; [assumption | exact I]|].
-  destruct Hs as [Hd [_ [_ [Hn _]]]]. unfold merge_step. rewrite Hd. cbn [fst with_cs st_cs cs_set_sub cs_counts].
-  now rewrite assoc_m_set_same, Hn.
-Qed.
-
-(** every COUNT is answered by exactly one COUNT reply, once every child has
-    replied; none before *)
-Theorem count_exactly_one n s sub w :
-  (1 <= n)%nat -> state_ok n s -> trace_ok n w -> no_ccount sub w ->
-  count_occ_b (is_count_out sub) (cnt_outs s sub w) = if all_counted n sub w then 1%nat else 0%nat.
-Proof.
-  intros Hn Hs. destruct (after_ccount n s sub Hs) as [Hs1 H1]. unfold cnt_outs.
-  set (s1 := fst (merge_step s (CCount sub))) in *.
-  induction w as [|x w IH] using rev_ind; intros Ht Hnc.
-  - now rewrite (all_counted_nil n sub Hn).
-  - destruct (trace_ok_snoc _ _ _ Ht) as [Ht1 Hx]. destruct (no_ccount_snoc _ _ _ Hnc) as [Hnc1 Hcx].
-    rewrite outs_snoc, count_occ_b_app, (IH Ht1 Hnc1). cbn [count_occ_b].
-    pose proof (cnt_window_out n sub s1 w x Hn Hs1 H1 Ht Hnc) as Ho.
-    destruct (all_counted n sub w) eqn:Ea; cbn [negb andb] in Ho.
-    + rewrite Ho, (all_counted_mono n sub w x Ea). reflexivity.
-    + destruct (all_counted n sub (w ++ [x])).
-      * destruct Ho as [r [-> [Er _]]]. cbn [is_count_out]. now rewrite Er, str_eqb_refl.
-      * now rewrite Ho.
-Qed.
-
-Lemma no_ccount_mid sub a x b : no_ccount sub (a ++ x :: b) -> no_ccount sub (a ++ [x]).
-Proof.
-  intros H y Hy. apply H. apply in_app_or in Hy as [Hy|[<-|[]]]; apply in_or_app; [now left | right; now left].
-Qed.
-
-(** the reply is output at the step of the last child's reply and is one of
-    the children's replies with the maximal count *)
-Theorem count_is_max n s sub w1 x w2 r :
-  (1 <= n)%nat -> state_ok n s ->
-  trace_ok n (w1 ++ x :: w2) -> no_ccount sub (w1 ++ x :: w2) ->
-  nth_error (cnt_outs s sub (w1 ++ x :: w2)) (length w1) = Some (Some (SCount r)) -> c_sub r = sub ->
-  all_counted n sub w1 = false /\
-  exists replies, cnt_replies n sub (w1 ++ [x]) = List.map Some replies /\ length replies = n /\
-                  count_max_spec sub replies r.
-Proof.
-  intros Hn Hs Ht Hnc Hnth Hid. destruct (after_ccount n s sub Hs) as [Hs1 H1].
-  unfold cnt_outs in Hnth. rewrite outs_nth in Hnth. inversion Hnth as [Hout]. clear Hnth.
-  pose proof (cnt_window_out n sub _ w1 x Hn Hs1 H1 (trace_ok_mid _ _ _ _ Ht) (no_ccount_mid _ _ _ _ Hnc)) as Ho.
-  destruct (all_counted n sub w1) eqn:Ea; cbn [negb andb] in Ho.
-  { rewrite Hout in Ho. cbn in Ho. rewrite Hid, str_eqb_refl in Ho. discriminate. }
-  split; [reflexivity|].
-  destruct (all_counted n sub (w1 ++ [x])) eqn:Ea'.
-  2:{ rewrite Hout in Ho. cbn in Ho. rewrite Hid, str_eqb_refl in Ho. discriminate. }
-  destruct Ho as [r' [Er' [_ Em]]]. rewrite Hout in Er'. inversion Er'; subst r'.
-  unfold all_counted in Ea'. apply negb_true_iff in Ea'.
-  destruct (full_vector _ Ea') as [xs Exs]. exists xs. split; [exact Exs|]. split.
-  - rewrite <- (map_length Some xs), <- Exs. apply cnt_replies_length.
-  - apply cnt_merge_max; [now rewrite <- Exs|].
-    intros a Ha. assert (Hin : In (Some a) (cnt_replies n sub (w1 ++ [x]))) by (rewrite Exs; now apply in_map).
-    unfold cnt_replies in Hin. apply in_map_iff in Hin as [i [Hl _]].
-    destruct (latest_cnt_key _ _ _ _ _ Hl) as [Hk|Hk]; [discriminate | exact Hk].
-Qed.
-
-(* ------------------------------------------------------------------ *)
-(** * 11. The same, for every state a session can reach *)
+Lemma outs_app s a b : outs s (a ++ b) = outs s a ++ outs (final s a) b.
+Proof. unfold outs, final. now rewrite exec_app. Qed.
 
 Lemma reach_ok n pre : trace_ok n pre -> state_ok n (final (init n) pre).
 Proof. intro H. apply exec_ok; [apply init_ok | exact H]. Qed.
@@ -2408,273 +2027,3 @@ Proof. now intros [H _]. Qed.
 Lemma trace_ok_prefix n a b : trace_ok n (a ++ b) -> trace_ok n a.
 Proof. intro H. now apply Forall_app in H. Qed.
 
-(* ------------------------------------------------------------------ *)
-(** * 12. C09 for reachable states, under the guard [no_overlap] *)
-
-Lemma trace_ok_split n pre x w rest :
-  trace_ok n (pre ++ x :: w ++ rest) -> trace_ok n pre /\ trace_ok n w.
-Proof.
-  intro H. apply Forall_app in H as [H1 H2]. inversion H2 as [|? ? _ H3]; subst.
-  apply Forall_app in H3 as [H3 _]. auto.
-Qed.
-
-Theorem ok_exactly_one_reach n t pre id w rest :
-  (2 <= n)%nat -> trace_ok n t -> no_overlap n t -> t = pre ++ CEvent id :: w ++ rest -> no_cevent id w ->
-  count_occ_b (is_ok_out id) (evt_outs (final (init n) pre) id w) = if all_replied n id w then 1%nat else 0%nat.
-Proof.
-  intros Hn Ht [Hno _] Et Hnc. subst t. destruct (trace_ok_split _ _ _ _ _ Ht) as [H1 H2].
-  apply (ok_exactly_one n); auto using ge2_ge1, reach_ok.
-  apply idle_ev_slot; auto using ge2_ge1. eapply Hno. reflexivity.
-Qed.
-
-Theorem ok_verdict_reach n t pre id w1 x w2 rest r :
-  (2 <= n)%nat -> trace_ok n t -> no_overlap n t ->
-  t = pre ++ CEvent id :: (w1 ++ x :: w2) ++ rest -> no_cevent id (w1 ++ x :: w2) ->
-  nth_error (evt_outs (final (init n) pre) id (w1 ++ x :: w2)) (length w1) = Some (Some (SOk r)) ->
-  ok_id r = id ->
-  all_replied n id w1 = false /\
-  exists replies, ok_replies n id (w1 ++ [x]) = List.map Some replies /\ length replies = n /\
-                  ok_verdict_spec id replies r.
-Proof.
-  intros Hn Ht [Hno _] Et Hnc Hnth Hid. subst t. destruct (trace_ok_split _ _ _ _ _ Ht) as [H1 H2].
-  apply (ok_verdict n (final (init n) pre) id w1 x w2 r); auto using ge2_ge1, reach_ok.
-  apply idle_ev_slot; auto using ge2_ge1. eapply Hno. reflexivity.
-Qed.
-
-Theorem count_exactly_one_reach n pre sub w :
-  (2 <= n)%nat -> trace_ok n (pre ++ CCount sub :: w) -> no_ccount sub w ->
-  count_occ_b (is_count_out sub) (cnt_outs (final (init n) pre) sub w) = if all_counted n sub w then 1%nat else 0%nat.
-Proof.
-  intros Hn Ht Hnc. destruct (trace_ok_window _ _ _ _ Ht) as [H1 [_ H2]].
-  apply (count_exactly_one n); auto using ge2_ge1, reach_ok.
-Qed.
-
-Theorem count_is_max_reach n pre sub w1 x w2 r :
-  (2 <= n)%nat -> trace_ok n (pre ++ CCount sub :: w1 ++ x :: w2) -> no_ccount sub (w1 ++ x :: w2) ->
-  nth_error (cnt_outs (final (init n) pre) sub (w1 ++ x :: w2)) (length w1) = Some (Some (SCount r)) ->
-  c_sub r = sub ->
-  all_counted n sub w1 = false /\
-  exists replies, cnt_replies n sub (w1 ++ [x]) = List.map Some replies /\ length replies = n /\
-                  count_max_spec sub replies r.
-Proof.
-  intros Hn Ht Hnc Hnth Hid. destruct (trace_ok_window _ _ _ _ Ht) as [H1 [_ H2]].
-  apply (count_is_max n (final (init n) pre) sub w1 x w2 r); auto using ge2_ge1, reach_ok.
-Qed.
-
-(** an aggregated reply carries the id of the reply that completed it *)
-Theorem reply_id_preserved n s i m o :
-  state_ok n s -> (i < n)%nat ->
-  (snd (merge_step s (Child i (SOk m))) = Some o -> exists r, o = SOk r /\ ok_id r = ok_id m) /\
-  (forall c, snd (merge_step s (Child i (SCount c))) = Some o -> exists r, o = SCount r /\ c_sub r = c_sub c).
-Proof.
-  intros [Hd [Hr [Ho Hc]]] Hi. unfold merge_step. rewrite Hd. split.
-  - destruct (send_ok_spec n s i m Ho Hi) as [o' [E _]]. rewrite E. cbn [snd]. unfold out_ok.
-    destruct (snd (w_put _ i m)) as [l'|] eqn:Ew; [|discriminate].
-    destruct (ok_merge l') as [r|] eqn:Em; [|discriminate]. cbn. intro H. inversion H; subst o.
-    exists r. split; [reflexivity|]. apply (ok_merge_key (ok_id m) l' r Em). intros a Ha.
-    destruct (w_put_full_In _ _ _ _ _ Ew Ha) as [->|Hin]; [reflexivity|].
-    destruct (assoc (ok_id m) (os_s (st_os s))) as [l|] eqn:Ea; [|destruct Hin].
-    apply (proj2 (proj2 Ho _ _ Ea)). exact Hin.
-  - intro c. destruct (send_count_spec n s i c Hc Hi) as [c' [E _]]. rewrite E. cbn [snd]. unfold out_cnt.
-    destruct (snd (w_put _ i c)) as [l'|] eqn:Ew; [|discriminate].
-    destruct (cnt_merge l') as [r|] eqn:Em; [|discriminate]. cbn. intro H. inversion H; subst o.
-    exists r. split; [reflexivity|]. apply (cnt_merge_key (c_sub c) l' r Em). intros a Ha.
-    destruct (w_put_full_In _ _ _ _ _ Ew Ha) as [->|Hin]; [reflexivity|].
-    destruct (assoc (c_sub c) (cs_counts (st_cs s))) as [l|] eqn:Ea; [|destruct Hin].
-    apply (proj2 (proj2 Hc _ _ Ea)). exact Hin.
-Qed.
-
-(* ------------------------------------------------------------------ *)
-(** * 13. Without the guard the statement is false (finding K1) *)
-
-Definition k1_id : str := [120]%N.
-Definition k1_a1 : okm := mkOk k1_id true [] [].
-Definition k1_a2 : okm := mkOk k1_id false [98; 108; 111; 99; 107; 101; 100; 58; 32]%N [110; 111]%N.
-Definition k1_b1 : okm := mkOk k1_id true [] [].
-Definition k1_b2 : okm := mkOk k1_id true [] [].
-
-(** two EVENTs with one id in flight; child 0 answers both, then child 1
-    answers both (replies a1 a2 b1 b2) *)
-Definition k1_trace : list input :=
-  [CEvent k1_id; CEvent k1_id;
-   Child 0 (SOk k1_a1); Child 0 (SOk k1_a2); Child 1 (SOk k1_b1); Child 1 (SOk k1_b2)].
-
-Definition k1_sub : str := [99]%N.
-Definition k1_trace_count : list input :=
-  [CCount k1_sub; CCount k1_sub;
-   Child 0 (SCount (mkCnt k1_sub 1 None)); Child 0 (SCount (mkCnt k1_sub 2 None));
-   Child 1 (SCount (mkCnt k1_sub 3 None)); Child 1 (SCount (mkCnt k1_sub 4 None))].
-
-Definition replies_of_child_ev (id : str) (i : nat) (t : list input) : nat :=
-  count_occ_b (fun x => match x with Child j (SOk m) => Nat.eqb j i && str_eqb (ok_id m) id | _ => false end) t.
-Definition replies_of_child_cnt (sub : str) (i : nat) (t : list input) : nat :=
-  count_occ_b (fun x => match x with Child j (SCount m) => Nat.eqb j i && str_eqb (c_sub m) sub | _ => false end) t.
-
-Lemma k1_trace_ok : trace_ok 2 k1_trace.
-Proof. unfold trace_ok, k1_trace. repeat constructor. Qed.
-
-Lemma k1_trace_count_ok : trace_ok 2 k1_trace_count.
-Proof. unfold trace_ok, k1_trace_count. repeat constructor. Qed.
-
-(** two submissions, every child answers each of them, one OK comes out — and
-    it is rejecting although both children accepted the first submission and
-    only child 0 rejected the second: the verdict mixes a2 with b1 *)
-Theorem ok_exactly_one_refuted :
-  exists t id, trace_ok 2 t /\
-    count_occ_b (is_cevent_of id) t = 2%nat /\
-    replies_of_child_ev id 0 t = 2%nat /\ replies_of_child_ev id 1 t = 2%nat /\
-    count_occ_b (is_ok_out id) (outs (init 2) t) = 1%nat /\
-    outs (init 2) t = [None; None; None; None;
-                       Some (SOk (mkOk id false [] (ok_message k1_a2))); None].
-Proof.
-  exists k1_trace, k1_id. split; [exact k1_trace_ok|]. vm_compute. repeat split; reflexivity.
-Qed.
-
-Theorem count_exactly_one_refuted :
-  exists t sub, trace_ok 2 t /\
-    count_occ_b (is_ccount_of sub) t = 2%nat /\
-    replies_of_child_cnt sub 0 t = 2%nat /\ replies_of_child_cnt sub 1 t = 2%nat /\
-    count_occ_b (is_count_out sub) (outs (init 2) t) = 1%nat.
-Proof.
-  exists k1_trace_count, k1_sub. split; [exact k1_trace_count_ok|]. vm_compute. repeat split; reflexivity.
-Qed.
-
-(** the guard excludes exactly such histories *)
-Theorem k1_trace_overlaps : ~ no_overlap 2 k1_trace.
-Proof.
-  intros [H _]. specialize (H [CEvent k1_id] k1_id
-    [Child 0 (SOk k1_a1); Child 0 (SOk k1_a2); Child 1 (SOk k1_b1); Child 1 (SOk k1_b2)] eq_refl).
-  inversion H as [pre Hnc | pre w Hi Hnc Ha E].
-  - specialize (Hnc (CEvent k1_id) (or_introl eq_refl)). vm_compute in Hnc. discriminate.
-  - destruct pre as [|p pre]; cbn in E.
-    + inversion E; subst. vm_compute in Ha. discriminate.
-    + inversion E as [[E1 E2]]. destruct pre; discriminate.
-Qed.
-
-(* ------------------------------------------------------------------ *)
-(** * 14. Whole histories: as many aggregated replies as requests *)
-
-Lemma outs_cons s x t : outs s (x :: t) = snd (merge_step s x) :: outs (fst (merge_step s x)) t.
-Proof. unfold outs. rewrite exec_cons. reflexivity. Qed.
-
-Lemma outs_app s a b : outs s (a ++ b) = outs s a ++ outs (final s a) b.
-Proof. unfold outs, final. rewrite exec_app. reflexivity. Qed.
-
-(** without an EVENT [id], and with no slot for it, nothing is said about [id] *)
-Lemma no_cevent_quiet n id w : forall s,
-  state_ok n s -> assoc id (os_s (st_os s)) = None -> trace_ok n w -> no_cevent id w ->
-  count_occ_b (is_ok_out id) (outs s w) = 0%nat.
-Proof.
-  induction w as [|x w IH]; intros s Hs H0 Ht Hnc; [reflexivity|].
-  inversion Ht as [|? ? Hx Ht']; subst. rewrite outs_cons. cbn [count_occ_b].
-  assert (Hcx : is_cevent_of id x = false) by (apply Hnc; now left).
-  assert (Hstep : assoc id (os_s (st_os (fst (merge_step s x)))) = None /\ is_ok_out id (snd (merge_step s x)) = false).
-  { destruct (is_ok_in id x) eqn:Eok.
-    2:{ destruct (os_frame n s x id Hs Hx Hcx Eok) as [F O]. now rewrite F. }
-    destruct x as [| | | |j [| |m| | |]]; try discriminate. cbn in Eok. apply str_eqb_eq in Eok. subst id.
-    cbn [input_ok] in Hx. destruct Hs as [Hd [Hr [Ho Hc]]].
-    destruct (send_ok_spec n s j m Ho Hx) as [o' [E [_ [_ [Hs' _]]]]].
-    unfold merge_step. rewrite Hd, E. cbn [fst snd with_os st_os]. rewrite Hs', H0. cbn. auto. }
-  destruct Hstep as [H1 H2]. rewrite H2.
-  apply IH; [now apply step_ok | assumption | assumption | intros y Hy; apply Hnc; now right].
-Qed.
-
-Lemma no_cevent_count id w : no_cevent id w -> count_occ_b (is_cevent_of id) w = 0%nat.
-Proof.
-  induction w as [|x w IH]; intro H; [reflexivity|]. cbn. rewrite (H x (or_introl eq_refl)).
-  apply IH. intros y Hy. apply H. now right.
-Qed.
-
-(** If, after the history [t], no EVENT with id [id] is in flight — every
-    submission was answered by every child before the next one with that id
-    came — then the client has received exactly as many OKs for [id] as it
-    submitted EVENTs with that id. *)
-Theorem ok_count_equals_event_count n id t :
-  (1 <= n)%nat -> trace_ok n t -> idle_ev n id t ->
-  count_occ_b (is_ok_out id) (outs (init n) t) = count_occ_b (is_cevent_of id) t.
-Proof.
-  intros Hn Ht Hi. induction Hi as [pre Hnc | pre w Hi IH Hnc Ha].
-  - rewrite (no_cevent_count id pre Hnc).
-    apply (no_cevent_quiet n id pre); try assumption; [apply init_ok | reflexivity].
-  - destruct (trace_ok_window _ _ _ _ Ht) as [Ht1 [_ Ht2]]. specialize (IH Ht1).
-    rewrite outs_app, outs_cons, !count_occ_b_app. cbn [count_occ_b]. rewrite IH.
-    assert (Hs : state_ok n (final (init n) pre)) by now apply reach_ok.
-    pose proof (idle_ev_slot n id pre Hn Ht1 Hi) as H0.
-    pose proof (ok_exactly_one n _ id w Hn Hs H0 Ht2 Hnc) as H1. unfold evt_outs in H1. rewrite H1, Ha.
-    assert (Hnone : snd (merge_step (final (init n) pre) (CEvent id)) = None).
-    { unfold merge_step. destruct (st_dead _); reflexivity. }
-    rewrite Hnone. cbn [is_ok_out is_cevent_of]. rewrite str_eqb_refl, (no_cevent_count id w Hnc). lia.
-Qed.
-
-Lemma no_ccount_quiet n sub w : forall s,
-  state_ok n s -> assoc sub (cs_counts (st_cs s)) = None -> trace_ok n w -> no_ccount sub w ->
-  count_occ_b (is_count_out sub) (outs s w) = 0%nat.
-Proof.
-  induction w as [|x w IH]; intros s Hs H0 Ht Hnc; [reflexivity|].
-  inversion Ht as [|? ? Hx Ht']; subst. rewrite outs_cons. cbn [count_occ_b].
-  assert (Hcx : is_ccount_of sub x = false) by (apply Hnc; now left).
-  assert (Hstep : assoc sub (cs_counts (st_cs (fst (merge_step s x)))) = None /\
-                  is_count_out sub (snd (merge_step s x)) = false).
-  { destruct (is_cnt_in sub x) eqn:Eok.
-    2:{ destruct (cs_frame n s x sub Hs Hx Hcx Eok) as [F O]. now rewrite F. }
-    destruct x as [| | | |j [| | |m| |]]; try discriminate. cbn in Eok. apply str_eqb_eq in Eok. subst sub.
-    cbn [input_ok] in Hx. destruct Hs as [Hd [Hr [Ho Hc]]].
-    destruct (send_count_spec n s j m Hc Hx) as [o' [E [_ [_ [Hs' _]]]]].
-    unfold merge_step. rewrite Hd, E. cbn [fst snd with_cs st_cs]. rewrite Hs', H0. cbn. auto. }
-  destruct Hstep as [H1 H2]. rewrite H2.
-  apply IH; [now apply step_ok | assumption | assumption | intros y Hy; apply Hnc; now right].
-Qed.
-
-Lemma no_ccount_count sub w : no_ccount sub w -> count_occ_b (is_ccount_of sub) w = 0%nat.
-Proof.
-  induction w as [|x w IH]; intro H; [reflexivity|]. cbn. rewrite (H x (or_introl eq_refl)).
-  apply IH. intros y Hy. apply H. now right.
-Qed.
-
-Theorem count_count_equals_request_count n sub t :
-  (1 <= n)%nat -> trace_ok n t -> idle_cnt n sub t ->
-  count_occ_b (is_count_out sub) (outs (init n) t) = count_occ_b (is_ccount_of sub) t.
-Proof.
-  intros Hn Ht Hi. induction Hi as [pre Hnc | pre w Hi IH Hnc Ha].
-  - rewrite (no_ccount_count sub pre Hnc).
-    apply (no_ccount_quiet n sub pre); try assumption; [apply init_ok | reflexivity].
-  - destruct (trace_ok_window _ _ _ _ Ht) as [Ht1 [_ Ht2]]. specialize (IH Ht1).
-    rewrite outs_app, outs_cons, !count_occ_b_app. cbn [count_occ_b]. rewrite IH.
-    assert (Hs : state_ok n (final (init n) pre)) by now apply reach_ok.
-    pose proof (count_exactly_one n _ sub w Hn Hs Ht2 Hnc) as H1. unfold cnt_outs in H1. rewrite H1, Ha.
-    assert (Hnone : snd (merge_step (final (init n) pre) (CCount sub)) = None).
-    { unfold merge_step. destruct (st_dead _); reflexivity. }
-    rewrite Hnone. cbn [is_count_out is_ccount_of]. rewrite str_eqb_refl, (no_ccount_count sub w Hnc). lia.
-Qed.
-
-(** among the children's replies the merged COUNT is the first (lowest child
-    index) that carries the maximum — what [slices.MaxFunc] returns *)
-Lemma cnt_merge_first xs r :
-  cnt_merge (List.map Some xs) = Some r ->
-  exists before after, xs = before ++ r :: after /\ forall b, In b before -> c_count b < c_count r.
-Proof.
-  unfold cnt_merge. rewrite all_some_map. destruct xs as [|m l]; [discriminate|]. intro H.
-  inversion H; subst r. apply first_max_first.
-Qed.
-
-Theorem count_is_first_max_reach n pre sub w1 x w2 r :
-  (2 <= n)%nat -> trace_ok n (pre ++ CCount sub :: w1 ++ x :: w2) -> no_ccount sub (w1 ++ x :: w2) ->
-  nth_error (cnt_outs (final (init n) pre) sub (w1 ++ x :: w2)) (length w1) = Some (Some (SCount r)) ->
-  c_sub r = sub ->
-  exists before after,
-    cnt_replies n sub (w1 ++ [x]) = List.map Some (before ++ r :: after) /\
-    forall b, In b before -> c_count b < c_count r.
-Proof.
-  intros Hn Ht Hnc Hnth Hid. destruct (trace_ok_window _ _ _ _ Ht) as [H1 [_ H2]].
-  assert (Hs : state_ok n (final (init n) pre)) by now apply reach_ok.
-  destruct (after_ccount n _ sub Hs) as [Hs1 H0].
-  unfold cnt_outs in Hnth. rewrite outs_nth in Hnth. inversion Hnth as [Hout]. clear Hnth.
-  pose proof (cnt_window_out n sub _ w1 x (ge2_ge1 n Hn) Hs1 H0 (trace_ok_mid _ _ _ _ H2) (no_ccount_mid _ _ _ _ Hnc)) as Ho.
-  destruct (negb (all_counted n sub w1) && all_counted n sub (w1 ++ [x])) eqn:Ec.
-  2:{ rewrite Hout in Ho. cbn in Ho. rewrite Hid, str_eqb_refl in Ho. discriminate. }
-  destruct Ho as [r' [Er' [_ Em]]]. rewrite Hout in Er'. inversion Er'; subst r'.
-  apply andb_true_iff in Ec as [_ Ea']. unfold all_counted in Ea'. apply negb_true_iff in Ea'.
-  destruct (full_vector _ Ea') as [xs Exs]. rewrite Exs in Em.
-  destruct (cnt_merge_first xs r Em) as [before [after [E Hb]]].
-  exists before, after. split; [now rewrite Exs, E | exact Hb].
-Qed.
